@@ -6,6 +6,14 @@ DESIGN 2.4, run against the real library; every case is compared with an indepen
 (hashlib / hmac from CPython, pure-Python models in mc.ref).  Every MAC tag is then mutated with
 the complete received-tag alphabet (all single-bit flips, all truncations, one-byte extensions,
 the tag of another message) and offered to verify()/hexverify().
+
+The thorough tier adds (never enumerated in the quick tier): dense sweeps of every length parameter (key,
+customisation, function name, digest / mac length, item lengths, message lengths up to 16 blocks and
+2^k-1..2^k+1 up to 1 MiB, length-of-length boundaries of left/right_encode at 2^16 and 2^24 bits,
+KangarooTwelve with 4..64 and 256/257 chunks), full parameter x message products (pgrid, thgrid), and the
+tight-loop parts seg / rseg / xofgrid / k12cuts: every way to feed a message in 2, 3 or 4 pieces (bytes,
+bytearray / memoryview, new(data=)+update, copy() or digest() in mid-stream) and to read an XOF in 2 or 3
+pieces, each compared with the reference; see deep_grids() for the exact bounds.
 """
 import hashlib
 import json
@@ -182,16 +190,28 @@ def _split(n):
 # ---------------------------------------------------------------------------
 # MAC verification alphabet
 # ---------------------------------------------------------------------------
-def run_verify(acc, fam, algo, mk, tag, longer, other, what, case):
-    """mk() -> fresh MAC object holding the message; tag = reference tag (== library tag)."""
+VERIFY_MODES = ("verify", "hexverify")
+VERIFY_MODES_TYPED = ("verify", "hexverify", "verify-bytearray", "verify-memoryview")
+
+
+def run_verify(acc, fam, algo, mk, tag, longer, other, what, case, level=1):
+    """mk() -> fresh MAC object holding the message; tag = reference tag (== library tag).
+    level (the 'verify' field of a case): 1/True = verify(bytes), hexverify(str); 3 = additionally the candidate
+    as bytearray and as memoryview slice; 2 = as 3 plus the extended candidate alphabet (two-bit flips, byte
+    substitutions) for tags <= 16 bytes."""
+    level = int(level)
     obj = mk()
-    for cls, cand in R.tag_candidates(tag, longer, other):
+    for cls, cand in R.tag_candidates(tag, longer, other, level == 2):
         good = cand == tag
-        for mode in ("verify", "hexverify"):
+        for mode in (VERIFY_MODES if level == 1 else VERIFY_MODES_TYPED):
             acc.count("evaluations")
             try:
                 if mode == "verify":
                     obj.verify(cand)
+                elif mode == "verify-bytearray":
+                    obj.verify(bytearray(cand))
+                elif mode == "verify-memoryview":
+                    obj.verify(_mv(cand))
                 else:
                     obj.hexverify(cand.hex())
                 res = "accept"
@@ -435,7 +455,8 @@ def check_kmac(acc, bits, key, custom, msg, mac_len, do_verify=False):
                           % (what, short(d3), short(exp)), case)
     if do_verify:
         other = R.kmac_ref(bits, key, msg + b"x", outlen, custom or b"")
-        run_verify(acc, "mac", algo, lambda: mod.new(key=key, data=msg, **kw), exp, None, other, what, case)
+        run_verify(acc, "mac", algo, lambda: mod.new(key=key, data=msg, **kw), exp, None, other, what, case,
+                   level=do_verify)
 
 
 _SCRIPT_KMAC256 = """from Crypto.Hash import KMAC128, KMAC256
@@ -586,19 +607,20 @@ def check_turbo(acc, bits, msg, reads, domain):
 # ---------------------------------------------------------------------------
 # part: KangarooTwelve (KT128)
 # ---------------------------------------------------------------------------
-def check_k12(acc, msg, custom, reads, feed):
+def check_k12(acc, msg, custom, reads, feed, counted=False):
     """feed: ['data'] new(data=m) | ['none'] no update call at all (empty message only) |
-    ['update'] one update(m) | ['cut', c] update(m[:c]), update(m[c:]) | ['chunks', n] pieces of n bytes.
-    custom=None: parameter omitted."""
+    ['update'] one update(m) | ['cut', c] update(m[:c]), update(m[c:]) | ['cut2', c1, c2] three pieces |
+    ['chunks', n] pieces of n bytes.  custom=None: parameter omitted."""
     mod = lib()["K12"]
     feed = list(feed)
     outlen = sum(reads)
     cu = custom or b""
     exp = R.k12_ref(bytes(msg), bytes(cu))[:outlen]
-    acc.count("evaluations")
-    acc.count("k12_cases")
-    acc.seen("shapes", ("k12", len(msg), None if custom is None else len(custom), tuple(reads), tuple(feed)))
-    acc.seen("out/k12", exp[:6])
+    if not counted:
+        acc.count("evaluations")
+        acc.count("k12_cases")
+        acc.seen("shapes", ("k12", len(msg), None if custom is None else len(custom), tuple(reads), tuple(feed)))
+        acc.seen("out/k12", exp[:6])
     case = {"part": "k12", "msg": msg, "custom": custom, "reads": list(reads), "feed": feed}
     what = "KangarooTwelve, %d-byte message, customisation %s, fed by %s, output %d bytes" % (
         len(msg), "omitted" if custom is None else "%d bytes" % len(custom), feed, outlen)
@@ -615,6 +637,10 @@ def check_k12(acc, msg, custom, reads, feed):
             elif feed[0] == "cut":
                 h.update(msg[:feed[1]])
                 h.update(msg[feed[1]:])
+            elif feed[0] == "cut2":
+                h.update(msg[:feed[1]])
+                h.update(msg[feed[1]:feed[2]])
+                h.update(msg[feed[2]:])
             elif feed[0] == "chunks":
                 for i in range(0, len(msg), feed[1]):
                     h.update(msg[i:i + feed[1]])
@@ -695,7 +721,8 @@ def check_hmac(acc, hname, key, msg, do_verify=False):
         acc.violation(k + "digest_size", "%s: digest_size = %r" % (what, ds), case)
     if do_verify:
         other = R.hmac_ref(refname, key, msg + b"x")
-        run_verify(acc, "mac", algo, lambda: HM.new(key, msg, **kw), exp, None, other, what, case)
+        run_verify(acc, "mac", algo, lambda: HM.new(key, msg, **kw), exp, None, other, what, case,
+                   level=do_verify)
 
 
 # ---------------------------------------------------------------------------
@@ -777,7 +804,7 @@ def check_cmac(acc, cname, key, msg, mac_len, cut=None, do_verify=False):
     if do_verify:
         other = R.cmac_ref(_cmac_cipher(cname, key), msg + b"x")[:outlen]
         run_verify(acc, "mac", algo, lambda: CM.new(key, msg=msg, ciphermod=cmod, **kw), exp, full, other,
-                   what, case)
+                   what, case, level=do_verify)
 
 
 # ---------------------------------------------------------------------------
@@ -846,7 +873,7 @@ def check_poly(acc, cname, key, nonce, msg, do_verify=False):
     if do_verify:
         other = R.poly_ref(r, s, msg + b"x")
         run_verify(acc, "mac", algo, lambda: P.new(key=key, cipher=cmod, nonce=nonce, data=msg), exp, None,
-                   other, what, case)
+                   other, what, case, level=do_verify)
 
 
 # ---------------------------------------------------------------------------
@@ -904,27 +931,33 @@ def check_blake2(acc, variant, dbytes, key, msg, use_bits=False, do_verify=False
                       % (what, d3.hex(), exp.hex()), case)
     if do_verify:
         other = _b2ref(variant, dbytes, key, msg + b"x")
-        run_verify(acc, fam, algo, lambda: mod.new(data=msg, **kw), exp, None, other, what, case)
+        run_verify(acc, fam, algo, lambda: mod.new(data=msg, **kw), exp, None, other, what, case,
+                   level=do_verify)
 
 
-def blake2_grid(acc, variant, dbytes, maxmsg):
-    """Tight loop: every key length x every message length 0..maxmsg for one digest size."""
+def blake2_grid(acc, variant, dbytes, maxmsg, alt=False):
+    """Tight loop: every key length x every message length 0..maxmsg for one digest size.
+    alt: second pass with ascending values through new(digest_bits=, key=).update(m)."""
     mod = lib()["BLAKE2"][variant]
     new = mod.new
     f = hashlib.blake2b if variant == "b" else hashlib.blake2s
     maxkey = 64 if variant == "b" else 32
-    kbuf = val(3, maxkey, "b2key")
-    mbuf = val(3, maxmsg + 300, "b2msg")
+    kbuf = val(2 if alt else 3, maxkey, "b2key")
+    mbuf = val(2 if alt else 3, maxmsg + 300, "b2msg")
     n = 0
     for kl in range(maxkey + 1):
         key = kbuf[:kl]
-        acc.seen("shapes", ("blake2", variant, dbytes, kl))
+        acc.seen("shapes", ("blake2-alt" if alt else "blake2", variant, dbytes, kl))
         for ml in range(maxmsg + 1):
             off = (kl * 7 + dbytes) % 251
             msg = mbuf[off:off + ml]
             n += 1
             try:
-                if kl:
+                if alt:
+                    h = new(digest_bits=8 * dbytes, key=key) if kl else new(digest_bits=8 * dbytes)
+                    h.update(msg)
+                    d = h.digest()
+                elif kl:
                     d = new(digest_bytes=dbytes, key=key, data=msg).digest()
                 else:
                     d = new(digest_bytes=dbytes, data=msg).digest()
@@ -966,6 +999,9 @@ def d_hashbig(acc, algo, total):
 STREAM_ALGOS = ("MD5", "RIPEMD160", "SHA1", "SHA224", "SHA256", "SHA384", "SHA512", "SHA512_224", "SHA512_256")
 
 
+STREAM_ALGOS_DEEP = ("SHA3_224", "SHA3_256", "SHA3_384", "SHA3_512", "BLAKE2b")
+
+
 def gen_hash(q):
     groups = []
     for algo, (f, B, D, hl) in R.HASH_REF.items():
@@ -973,20 +1009,29 @@ def gen_hash(q):
         if "alias" in algo:
             lens, kinds = [0, 1, 55, 56, 63, 64, 65, 119, 120, 128, 129], (2, 3)
         elif algo.startswith(("SHA3", "keccak")):
-            lens, kinds = range(0, (2 if q else 4) * B + 2), ((2, 3) if slow and q else (0, 1, 2, 3))
+            lens, kinds = range(0, (2 if q else 8) * B + 2), ((2, 3) if slow and q else (0, 1, 2, 3))
         else:
-            lens = range(0, max((3 if q else 8) * B + 1, 193 if not (q and slow) else 0) + 1)
+            lens = range(0, max((3 if q else 16) * B + 1, 193 if not (q and slow) else 0) + 1)
             kinds = (2, 3) if slow and q else (0, 1, 2, 3)
         cases = [("hash", algo, n, k) for n in lens for k in kinds]
-        per = 700 if slow else 40
-        for c in chunks(cases, 8):
+        per = (700 if q else 1600) if slow else 40
+        for c in chunks(cases, 8 if q else 24):
             groups.append((per * len(c), c))
+        if not q and "alias" not in algo:
+            # lengths 2^k-1, 2^k, 2^k+1 up to 1 MiB (MD2: 64 KiB, its reference is the slowest)
+            for k in range(11, (16 if algo == "MD2" else 20) + 1):
+                for d in (-1, 0, 1):
+                    n = (1 << k) + d
+                    groups.append(((n * (6 if algo == "MD2" else 2) if slow else n // 40) + 200,
+                                   [("hash", algo, n, 3)]))
     total = (1 << 24) + 1 if q else (1 << 29) + 1
     for algo in STREAM_ALGOS:
         groups.append((total // 60, [("hashbig", algo, total)]))
     if not q:
         # BLAKE2s keeps a 32-bit low offset counter: cross 2^32 bytes once
-        groups.append(((1 << 32) // 40, [("hashbig", "BLAKE2s", (1 << 32) + 65)]))
+        groups.append(((1 << 32) // 80, [("hashbig", "BLAKE2s", (1 << 32) + 65)]))
+        for algo in STREAM_ALGOS_DEEP:
+            groups.append((total // 40, [("hashbig", algo, total)]))
     return groups
 
 
@@ -999,18 +1044,25 @@ def gen_shake(q):
     cases = []
     for bits in (128, 256):
         r = _rate(bits)
-        for n in range(0, (2 if q else 4) * r + 2):
+        for n in range(0, (2 if q else 8) * r + 2):
             for k in ((2, 3) if q else (0, 1, 2, 3)):
                 cases.append(("shake", bits, n, k, (32,)))
-        for outlen in range(0, (2 if q else 3) * r + 2):
+        for outlen in range(0, (2 if q else 4) * r + 2):
             for n in (0, r - 1, r + 1):
                 cases.append(("shake", bits, n, 2, _split(outlen)))
+        if not q:
+            for k in range(11, 21):
+                for d in (-1, 0, 1):
+                    cases.append(("shake", bits, (1 << k) + d, 3, (32,)))
+            for k in range(10, 17):
+                for d in (-1, 0, 1):
+                    cases.append(("shake", bits, 17, 3, _split((1 << k) + d)))
         L = 2 * r + 1
         for a in range(0, L + 1):
             cases.append(("shake", bits, 3, 3, (a, L - a)))
         cases.append(("shake", bits, 17, 3, (10 * r + 7,)))
         cases.append(("shake", bits, 17, 3, (1, r - 1, r, r + 1, 5)))
-    return [(30 * len(c), c) for c in chunks(cases, 16)]
+    return [((30 if q else 60) * len(c), c) for c in chunks(cases, 16 if q else 48)]
 
 
 # ---- cSHAKE -----------------------------------------------------------------
@@ -1028,11 +1080,18 @@ def custom_lengths(bits):
                     2 * r - 6, 8191, 8192, 8193, 65536])
 
 
+def CSHAKE_SWEEP_MSGS(r):
+    return (0, 1, r - 1, r, r + 1)
+
+
+CSHAKE_HUGE_CUSTOM = (2097151, 2097152, 2097153)
+
+
 def gen_cshake(q):
     groups = []
     for bits in (128, 256):
         r = _rate(bits)
-        full = list(range(0, 2 * r + 2))
+        full = list(range(0, (2 if q else 4) * r + 2))
         few = [0, 1, r - 1, r, r + 1, 2 * r + 1]
         for clen in custom_lengths(bits):
             if q:
@@ -1042,18 +1101,39 @@ def gen_cshake(q):
                 cases = [("cshake", bits, n, k, 32, clen, None) for n in full for k in (2, 3)]
             if clen == 1:
                 cases += [("cshake", bits, 3, 3, o, clen, None) for o in range(0, 2 * r + 2)]
-            groups.append((900 * len(cases) + 2 * (clen or 0), cases))
+            if q:
+                groups.append((900 * len(cases) + 2 * (clen or 0), cases))
+            else:
+                for c in chunks(cases, 4):
+                    groups.append((1100 * len(c) + 2 * (clen or 0), c))
         for flen in (0, 1, 4, 9, 31, 32, 33, 255, 256):
             for clen in (0, 1, 32):
                 cases = [("cshake", bits, n, 3, 32, clen, flen) for n in (0, r + 1)]
                 groups.append((900 * len(cases), cases))
+        if not q:
+            # every customisation length 0..3*rate+1 (all bytepad alignments of the prefix block)
+            for clen in range(0, 3 * r + 2):
+                cases = [("cshake", bits, n, 3, 32, clen, None) for n in CSHAKE_SWEEP_MSGS(r)]
+                groups.append((1000 * len(cases), cases))
+            # every function-name length 0..rate+8 through _new()
+            for flen in range(0, r + 9):
+                cases = [("cshake", bits, n, 3, 32, clen, flen) for clen in (0, 1) for n in (0, r + 1)]
+                groups.append((1000 * len(cases), cases))
+            # left_encode(bit length) grows from 3 to 4 bytes at 2^24 bits = 2 MiB
+            for clen in CSHAKE_HUGE_CUSTOM:
+                cases = [("cshake", bits, n, 3, 32, clen, None) for n in (0, 1, r + 1)]
+                groups.append((4 * clen, cases))
     return groups
 
 
 # ---- KMAC -------------------------------------------------------------------
-def d_kmac(acc, bits, klen, clen, n, mac_len, verify):
+def d_kmac(acc, bits, klen, clen, n, mac_len, verify, mkind=3):
     custom = None if clen is None else val(3, clen, "kmac-custom")
-    check_kmac(acc, bits, val(3, klen, "kmac-key"), custom, val(3, n, "kmac-msg"), mac_len, verify)
+    check_kmac(acc, bits, val(3, klen, "kmac-key"), custom, val(mkind, n, "kmac-msg"), mac_len, verify)
+
+
+KMAC_ENCODE_EDGES = (8191, 8192, 8193, 65536)       # left/right_encode: 2 -> 3 length bytes at 2^16 bits
+KMAC_ENCODE_HUGE = (2097151, 2097152)               # 3 -> 4 length bytes at 2^24 bits
 
 
 def gen_kmac(q):
@@ -1075,6 +1155,47 @@ def gen_kmac(q):
         for klen in (mk, r + 1):
             cases = [("kmac", bits, klen, 0, n, m, True) for m in (8, 32, r + 1) for n in (0, r + 1)]
             groups.append((60000 * len(cases), cases))
+        if q:
+            continue
+        # every key length min..2*rate+2
+        for klen in range(mk, 2 * r + 3):
+            cases = [("kmac", bits, klen, clen, n, m, False) for clen in (None, 1) for n in NL for m in (None, 32)]
+            groups.append((1000 * len(cases), cases))
+        # every mac_len 8..2*rate+1
+        for klen in (mk, r + 1):
+            for clen in (None, 1):
+                cases = [("kmac", bits, klen, clen, n, m, False) for n in (0, r + 1) for m in range(8, 2 * r + 2)]
+                for c in chunks(cases, 4):
+                    groups.append((1100 * len(c), c))
+        # every message length 0..4*rate+1, four message values, three (key, customisation, mac_len) settings
+        for klen, clen, m in ((mk, None, None), (r + 1, 1, 32), (r - 4, 33, r + 1)):
+            cases = [("kmac", bits, klen, clen, n, m, False, mkind) for n in range(0, 4 * r + 2)
+                     for mkind in (0, 1, 2, 3)]
+            for c in chunks(cases, 8):
+                groups.append((1100 * len(c), c))
+        # length-of-length boundaries of encode_string(key), encode_string(custom), right_encode(mac_len)
+        for e in KMAC_ENCODE_EDGES:
+            cases = [("kmac", bits, e, clen, n, m, False) for clen in (None, 1) for n in (0, 1, r + 1)
+                     for m in (None, 32)]
+            groups.append((1000 * len(cases) + 6 * e, cases))
+            cases = [("kmac", bits, klen, e, n, m, False) for klen in (mk, r + 1) for n in (0, 1, r + 1)
+                     for m in (None, 32)]
+            groups.append((1000 * len(cases) + 6 * e, cases))
+            cases = [("kmac", bits, klen, clen, n, e, False) for klen in (mk, r + 1) for clen in (None, 1)
+                     for n in (0, r + 1)]
+            groups.append(((1000 + 3 * e) * len(cases), cases))
+        for e in KMAC_ENCODE_HUGE:
+            groups.append((4 * e, [("kmac", bits, e, None, n, 32, False) for n in (0, r + 1)]))
+            groups.append((4 * e, [("kmac", bits, mk, e, n, 32, False) for n in (0, r + 1)]))
+            groups.append((4 * e, [("kmac", bits, mk, None, 3, e, False)]))
+        # verification alphabet on more (key, message, mac_len) shapes
+        cases = [("kmac", bits, klen, clen, n, m, 3) for klen in (mk, r - 4, r + 1) for clen in (None, 1)
+                 for n in (0, 1, r, r + 1) for m in (8, 9, 16, 32, 64)]
+        for c in chunks(cases, 12):
+            groups.append((30000 * len(c), c))
+        # extended candidate alphabet (verify flag 2) on 8- and 16-byte tags
+        for m in (8, 16):
+            groups.append((500000 * m, [("kmac", bits, mk + 1, 1, r + 1, m, 2)]))
     return groups
 
 
@@ -1104,6 +1225,41 @@ def gen_tuplehash(q):
                 groups.append((1100 * len(c), c))
         cases = [("tuplehash", bits, t, 65536, 32, False) for t in ((), (1,), (r, 0))]
         groups.append((1100 * len(cases) + 200000, cases))
+        if q:
+            continue
+        # more tuples: every pair over 14 boundary lengths, every 4-tuple over {0,1,32}, k one-byte / empty items
+        P2 = [0, 1, 2, 31, 32, 33, r - 5, r - 4, r - 3, r - 2, r - 1, r, r + 1, 2 * r]
+        more = [(a, b) for a in P2 for b in P2 if (a, b) not in tuples] \
+            + [(a, b, c, d) for a in L3 for b in L3 for c in L3 for d in L3] \
+            + [(1,) * k for k in range(4, 2 * r // 3 + 3)] + [(0,) * k for k in range(4, r + 3)]
+        for clen in (None, 1, 256):
+            cases = [("tuplehash", bits, t, clen, d, False) for t in more for d in (None, 32, r + 1)]
+            for c in chunks(cases, 12):
+                groups.append((1300 * len(c), c))
+        # every digest length 8..2*rate+1, every customisation length 0..2*rate+1
+        for t in ((), (1,), (r - 3, 32)):
+            cases = [("tuplehash", bits, t, clen, d, False) for clen in (None, 1) for d in range(8, 2 * r + 2)]
+            cases += [("tuplehash", bits, t, clen, 32, False) for clen in range(0, 2 * r + 2)]
+            for c in chunks(cases, 6):
+                groups.append((1200 * len(c), c))
+        # every single-item length 0..2*rate+1
+        cases = [("tuplehash", bits, (a,), clen, 32, False) for a in range(0, 2 * r + 2) for clen in (None, 1)]
+        for c in chunks(cases, 4):
+            groups.append((1200 * len(c), c))
+        # length-of-length boundaries: item / customisation / digest of 8191..8193, 65536 bytes (2 -> 3 length
+        # bytes) and 2 MiB (3 -> 4)
+        for e in KMAC_ENCODE_EDGES:
+            cases = [("tuplehash", bits, t, clen, 32, False) for t in ((e,), (e, 1), (0, e), (e, e))
+                     for clen in (None, 1)]
+            cases += [("tuplehash", bits, t, e, 32, False) for t in ((), (1,), (r, 0))]
+            groups.append((1200 * len(cases) + 24 * e, cases))
+            cases = [("tuplehash", bits, t, clen, e, False) for t in ((), (1,), (r, 0)) for clen in (None, 1)]
+            groups.append(((1200 + 3 * e) * len(cases), cases))
+        for e in KMAC_ENCODE_HUGE:
+            groups.append((4 * e, [("tuplehash", bits, (e,), None, 32, False)]))
+            groups.append((8 * e, [("tuplehash", bits, (1, e), 1, 32, False)]))
+            groups.append((4 * e, [("tuplehash", bits, (1,), e, 32, False)]))
+            groups.append((4 * e, [("tuplehash", bits, (1,), None, e, False)]))
     return groups
 
 
@@ -1116,23 +1272,33 @@ def gen_turbo(q):
     cases = []
     for bits in (128, 256):
         r = _rate(bits)
-        for n in range(0, (2 if q else 4) * r + 2):
+        for n in range(0, (2 if q else 8) * r + 2):
             for dom in (None, 0x01, 0x7F):
-                for k in ((3,) if q else (2, 3)):
+                for k in ((3,) if q else (0, 1, 2, 3)):
                     cases.append(("turbo", bits, n, k, (32,), dom))
         for dom in range(1, 0x80):
-            for n in (0, 1, r - 2, r - 1, r, r + 1):
+            for n in ((0, 1, r - 2, r - 1, r, r + 1) if q else range(0, 3 * r + 2)):
                 cases.append(("turbo", bits, n, 3, (32,), dom))
         for dom in (0, 0x80, 0xFF):
             cases.append(("turbo", bits, 0, 3, (32,), dom))
-        for outlen in range(0, 2 * r + 2):
+        for outlen in range(0, (2 if q else 4) * r + 2):
             for n in (0, r - 1):
                 cases.append(("turbo", bits, n, 2, _split(outlen), 0x1F))
+        if not q:
+            for k in range(11, 19):
+                for d in (-1, 0, 1):
+                    cases.append(("turbo", bits, (1 << k) + d, 3, (32,), 0x1F))
+                    cases.append(("turbo", bits, 17, 3, _split((1 << k) + d), 0x1F))
         L = 2 * r + 1
         for a in range(0, L + 1, 1 if not q else 3):
             cases.append(("turbo", bits, 3, 3, (a, L - a), 0x06))
         cases.append(("turbo", bits, 17, 3, (1, r - 1, r, r + 1, 5), 0x0B))
-    return [(450 * len(c), c) for c in chunks(cases, 32)]
+    if q:
+        return [(450 * len(c), c) for c in chunks(cases, 32)]
+    big = [c for c in cases if c[2] > 2048 or sum(c[4]) > 2048]
+    small = [c for c in cases if not (c[2] > 2048 or sum(c[4]) > 2048)]
+    return [(900 * len(c), c) for c in chunks(small, 256)] \
+        + [(2 * (c[2] + sum(c[4])) + 1000, [c]) for c in big]
 
 
 # ---- KangarooTwelve -----------------------------------------------------------
@@ -1166,6 +1332,46 @@ def _k12_boundary_mlens(clen):
     return out
 
 
+K12_SMALL_CUSTOMS = (None, 0, 1, 2, 255, 256, 300)
+K12_CHUNK_COUNTS = tuple(range(4, 65))
+K12_CHUNK_CUSTOMS = (None, 1, 255, 8191, 8192)
+K12_MANY_CHUNKS = tuple(256 * 8192 + d for d in (-2, -1, 0, 1))       # |S| = 2^21-1 .. 2^21+2
+K12_PIECE_SIZES = (1, 7, 167, 168, 169, 1024, 4095, 4096, 8191, 8193, 16384)
+K12_EVERY_CUT = ((8190, None), (8191, None), (8192, None), (8193, None), (16385, None), (24577, None),
+                 (8185, 5), (8193, 300), (16384, 1), (20000, 8192),
+                 (32769, None), (40961, 1), (16390, 8190), (100, 16384), (8192, 8192), (24576, 255), (12000, 4000),
+                 (8189, 0), (8189, 1), (16381, 1), (24575, 2), (5000, 3190), (5000, 3191), (65537, None))
+
+
+def k12_cut_grid(acc, mlen, mkind, clen, lo, hi, stride, off):
+    """one message, every two-piece split update(m[:c]); update(m[c:]) for c in the strided range"""
+    mod = lib()["K12"]
+    custom = None if clen is None else val(3, clen, "k12-custom")
+    msg = val(mkind, mlen, "k12-msg")
+    exp = R.k12_ref(bytes(msg), bytes(custom or b""))[:32]
+    kw = {} if custom is None else {"custom": custom}
+    cnt = 0
+    for c in _ns(lo, hi, stride, off):
+        cnt += 1
+        try:
+            h = mod.new(**kw)
+            h.update(msg[:c])
+            h.update(msg[c:])
+            bad = h.read(32) != exp
+        except Exception:  # noqa
+            bad = True
+        if bad:
+            check_k12(acc, msg, custom, (32,), ("cut", c), counted=True)
+    acc.seen("shapes", ("k12-every-cut", mlen, clen, stride, off))
+    acc.seen("out/k12", exp[:6])
+    acc.count("evaluations", cnt)
+    acc.count("k12_cut_cases", cnt)
+
+
+def d_k12cuts(acc, mlen, mkind, clen, lo, hi, stride, off):
+    k12_cut_grid(acc, mlen, mkind, clen, lo, hi, stride, off)
+
+
 def gen_k12(q):
     groups = []
     if q:
@@ -1176,8 +1382,8 @@ def gen_k12(q):
     else:
         ML = list(range(0, 4)) + list(range(8180, 8205)) + list(range(16376, 16393)) \
             + list(range(24570, 24585)) + [32768, 32769, 40961, 65536, 65537]
-        CL = [None, 0, 1, 2, 255, 256, 257, 8189, 8190, 8191, 8192, 8193, 16384, 65536]
-        CL0 = CL + [8187, 8188, 24576]
+        CL = [None, 0, 1, 2, 255, 256, 257, 8189, 8190, 8191, 8192, 8193, 16383, 16384, 16385, 24576, 65536]
+        CL0 = CL + [8187, 8188]
         kinds = (2, 3)
     for clen in CL0:
         mls = ML if clen in CL else []
@@ -1193,6 +1399,48 @@ def gen_k12(q):
             for mlen in range(4, 341):
                 groups.append((1500, [("k12", mlen, 3, clen, (32,), ("data",)),
                                       ("k12", mlen, 2, clen, (32,), ("update",))]))
+        # every message length 0..4*168+2 for seven customisation settings
+        for clen in K12_SMALL_CUSTOMS:
+            for mlen in range(0, 4 * 168 + 3):
+                if clen in (None, 1) and 4 <= mlen <= 340:
+                    continue
+                groups.append((1800, [("k12", mlen, 3, clen, (32,), ("data",)),
+                                      ("k12", mlen, 2, clen, (32,), ("update",))]))
+        # every number of chunks 4..42 (CV bytes cross the 168-byte rate of the final node at every alignment;
+        # 32*j mod 168 has period 21), |S| = j*8192 - 1 .. j*8192 + 1 without and with customisation
+        for j in K12_CHUNK_COUNTS:
+            for clen in K12_CHUNK_CUSTOMS:
+                for d in (-1, 0, 1):
+                    mlen = j * 8192 + d - ((clen or 0) + len(K.length_encode(clen or 0)))
+                    cases = [("k12", mlen, 3, clen, (32,), f) for f in _k12_feeds(mlen)]
+                    cases.append(("k12", mlen, 3, clen, (7, 161, 168, 1), ("update",)))
+                    groups.append((3000 + 2 * mlen + 60 * len(cases) + len(cases) * mlen // 25, cases))
+        # 256 / 257 chunks: length_encode(n-1) grows from one to two bytes
+        for mlen in K12_MANY_CHUNKS:
+            cases = [("k12", mlen, 3, None, (32,), f) for f in
+                     (("data",), ("update",), ("chunks", 8192), ("chunks", 65536), ("chunks", 65537), ("cut", 8192))]
+            groups.append((4 * mlen, cases))
+        # feeding in equal pieces of many sizes
+        for mlen, clen in ((8192, None), (8193, None), (16385, 1), (24577, None), (24600, 300)):
+            cases = [("k12", mlen, 3, clen, (32,), ("chunks", c)) for c in K12_PIECE_SIZES]
+            groups.append((3000 + 2 * mlen + 120000 * len(cases), cases))
+        # three pieces with both cuts on / next to chunk boundaries
+        for mlen, clen in ((16390, None), (24580, 3)):
+            W = _dedupe([0, 1, 8191, 8192, 8193, 16383, 16384, 16385, mlen - 1, mlen])
+            cases = [("k12", mlen, 3, clen, (32,), ("cut2", a, b)) for a in W for b in W if a <= b]
+            groups.append((3000 + 2 * mlen + 100 * len(cases), cases))
+            # both cuts anywhere in 8185..8199 / 16377..16391
+            W = list(range(8185, 8200)) + list(range(16377, 16392))
+            cases = [("k12", mlen, 3, clen, (32,), ("cut2", a, b)) for a in W for b in W if a <= b]
+            for c in chunks(cases, 4):
+                groups.append((3000 + 2 * mlen + 100 * len(c), c))
+        # every two-piece split of whole messages around the chunk size
+        for mlen, clen in K12_EVERY_CUT:
+            per = 60 + mlen // 200
+            stride = max(1, (mlen + 1) * per // GROUP_TARGET + 1)
+            for off in range(stride):
+                groups.append((len(range(off, mlen + 1, stride)) * per + 2 * mlen + 3000,
+                               [("k12cuts", mlen, 3, clen, 0, mlen, stride, off)]))
     for mlen, clen in ((0, None), (17, 5), (8193, 0), (8000, 300)):
         cases = [("k12", mlen, 3, clen, (o,), ("data",)) for o in range(0, 338)]
         cases += [("k12", mlen, 3, clen, (a, 337 - a), ("update",)) for a in range(0, 338, 1 if not q else 5)]
@@ -1203,6 +1451,10 @@ def gen_k12(q):
 # ---- HMAC ---------------------------------------------------------------------
 def d_hmac(acc, hname, klen, kkind, n, mkind, verify):
     check_hmac(acc, hname, val(kkind, klen, "hmac-key"), val(mkind, n, "hmac-msg"), verify)
+
+
+def HMAC_LONG_KEYS(B):
+    return (4 * B, 4 * B + 1, 1024, 65536)
 
 
 def gen_hmac(q):
@@ -1216,20 +1468,24 @@ def gen_hmac(q):
             groups.append((per * len(cases), cases))
             continue
         KL = list(range(0, B + 3)) + [2 * B] + ([] if q else [2 * B + 1, 3 * B])
+        if not q:
+            KL = sorted(set(KL) | set(range(0, 3 * B + 2)) | set(HMAC_LONG_KEYS(B)))
         cases = [("hmac", hname, kl, 3, n, 3, False) for kl in KL for n in NL]
         edge = [B - 1, B, B + 1, 2 * B]
         cases += [("hmac", hname, kl, kk, n, 2, False) for kl in (edge if q else KL) for kk in (0, 1, 2)
                   for n in ((0, B + 1) if q else NL)]
         if not q:
             cases += [("hmac", hname, kl, 3, n, 3, False) for kl in KL
-                      for n in range(0, 2 * B + 2) if n not in NL]
-        for c in chunks(cases, 4 if q else 16):
+                      for n in range(0, 3 * B + 2) if n not in NL]
+        for c in chunks(cases, 4 if q else max(16, len(cases) * per // GROUP_TARGET + 1)):
             groups.append((per * len(c), c))
-        cases = [("hmac", hname, kl, 3, n, 3, True)
-                 for kl in ((0, 1, B, B + 1) if q else (0, 1, B - 1, B, B + 1, B + 2, 2 * B))
-                 for n in ((0, B + 1) if q else (0, 1, B, B + 1))]
-        for c in chunks(cases, 2 if q else 7):
+        cases = [("hmac", hname, kl, 3, n, 3, True if q else 3)
+                 for kl in ((0, 1, B, B + 1) if q else (0, 1, B - 1, B, B + 1, B + 2, 2 * B, 3 * B + 1))
+                 for n in ((0, B + 1) if q else (0, 1, B - 1, B, B + 1, 2 * B + 1))]
+        for c in chunks(cases, 2 if q else 12):
             groups.append(((per + 50 * 18 * D) * len(c), c))
+        if not q and D <= R.DEEP_TAG_MAX:
+            groups.append((8000000, [("hmac", hname, B, 3, B + 1, 3, 2)]))
     cases = [("hmac", None, kl, 3, n, 3, False) for kl in (0, 1, 64, 65) for n in (0, 3)]
     groups.append((100 * len(cases), cases))
     return groups
@@ -1254,9 +1510,9 @@ def gen_cmac(q):
         if not q:
             kls = {"Blowfish": tuple(range(4, 57)), "CAST": tuple(range(5, 17)),
                    "ARC2": tuple(range(5, 18)) + (64, 127, 128)}.get(cname, kls)
-        top = (3 if q else 8) * bs + 1
+        top = (3 if q else 12) * bs + 1
         for klen in kls:
-            for kkind in ((0, 1, 2, 3) if cname == "AES" else (2, 3)):
+            for kkind in ((0, 1, 2, 3) if cname == "AES" or not (q or cname == "DES3") else (2, 3)):
                 cases = []
                 for n in range(0, top + 1):
                     for ml in list(range(4, bs + 1)):
@@ -1271,19 +1527,37 @@ def gen_cmac(q):
                 per = 150 + CMAC_REFCOST[cname] * (top // bs // 2 + 2)
                 for c in chunks(cases, 2):
                     groups.append((per * len(c) + 7000, c))
-            cases = [("cmac", cname, klen, 3, n, 3, ml, None, True) for n in (0, bs, bs + 1)
-                     for ml in (4, bs - 1, None)]
-            groups.append((25000 * len(cases), cases))
+            if q:
+                cases = [("cmac", cname, klen, 3, n, 3, ml, None, True) for n in (0, bs, bs + 1)
+                         for ml in (4, bs - 1, None)]
+                groups.append((25000 * len(cases), cases))
+            else:
+                cases = [("cmac", cname, klen, 3, n, 3, ml, None, 3) for n in (0, 1, bs - 1, bs, bs + 1, 2 * bs)
+                         for ml in list(range(4, bs + 1)) + [None]]
+                for c in chunks(cases, 3):
+                    groups.append((2200 * (bs + 4) * len(c), c))
+                if klen == kls[0]:
+                    groups.append((500000 * bs, [("cmac", cname, klen, 3, bs + 1, 3, ml, None, 2)
+                                                 for ml in (4, None)]))
     return groups
 
 
 # ---- Poly1305 -----------------------------------------------------------------
 def _poly_r(i):
-    return [bytes(16), b"\xff" * 16, R.R_CLAMP_MAX, asc(16, 1), val(3, 16, "poly-r")][i]
+    """0..4: the quick-tier patterns; 5..20: every combination of the four 32-bit limbs of r being zero or the
+    largest clamped value (thorough tier)"""
+    if i < 5:
+        return [bytes(16), b"\xff" * 16, R.R_CLAMP_MAX, asc(16, 1), val(3, 16, "poly-r")][i]
+    m = i - 5
+    return b"".join(R.R_CLAMP_MAX[4 * j:4 * j + 4] if (m >> j) & 1 else bytes(4) for j in range(4))
 
 
 def _poly_s(i):
-    return [bytes(16), b"\xff" * 16, val(3, 16, "poly-s")][i]
+    """0..2: quick-tier patterns; 3, 4: ascending, 2^128-2 (thorough tier)"""
+    return [bytes(16), b"\xff" * 16, val(3, 16, "poly-s"), asc(16, 0x80), b"\xfe" + b"\xff" * 15][i]
+
+
+POLY_NR_DEEP, POLY_NS_DEEP = 21, 5
 
 
 def d_polyrs(acc, ri, si, n, mkind):
@@ -1300,7 +1574,18 @@ def poly_key_nonce(cname, variant):
         if variant == 2:            # largest clamped r, s = 0
             key = asc(16) + R.R_CLAMP_MAX
             return key, R.poly_aes_nonce_for_s(key, bytes(16))
-        return bytes(32), bytes(16)
+        if variant == 3:
+            return bytes(32), bytes(16)
+        # thorough tier, 4..: r limb pattern (variant-4) % 16 with s = ones / zero / seeded nonce
+        v = variant - 4
+        key = val(3, 16, "poly-aes-key2") + _poly_r(5 + v % 16)
+        if v // 16 == 2:
+            return key, val(3, 16, "poly-aes-nonce2")
+        return key, R.poly_aes_nonce_for_s(key, (b"\xff" * 16, bytes(16))[v // 16])
+    if variant >= 4:
+        # thorough tier: key value kind x nonce length x nonce value kind
+        v = variant - 4
+        return val(v % 4, 32, "poly-cc-key2"), val((0, 1, 3)[(v // 8) % 3], (8, 12)[(v // 4) % 2], "poly-cc-nonce2")
     if variant == 0:
         return val(3, 32, "poly-cc-key"), val(3, 12, "poly-cc-nonce")
     if variant == 1:
@@ -1315,6 +1600,11 @@ def d_poly(acc, cname, variant, n, mkind, verify):
     check_poly(acc, cname, key, nonce, val(mkind, n, "poly-msg"), verify)
 
 
+POLY_LONG_TOP = 1025
+POLY_AES_VARIANTS = 4 + 48
+POLY_CC_VARIANTS = 4 + 24
+
+
 def gen_poly(q):
     top = 65 if q else 257
     cases = [("polyrs", ri, si, n, mk) for ri in range(5) for si in range(3) for n in range(0, top + 1)
@@ -1325,12 +1615,26 @@ def gen_poly(q):
         groups += [(500 * len(c), c) for c in chunks(cases, 4)]
         cases = [("poly", cname, v, n, 3, True) for v in (0, 1) for n in (0, 16, 17)]
         groups.append((15000 * len(cases), cases))
+    if not q:
+        # all 21 r patterns x 5 s patterns x message 0..257 x 4 values (the quick 5 x 3 sub-grid is above)
+        cases = [("polyrs", ri, si, n, mk) for ri in range(POLY_NR_DEEP) for si in range(POLY_NS_DEEP)
+                 if ri >= 5 or si >= 3 for n in range(0, top + 1) for mk in (0, 1, 2, 3)]
+        # longer messages for the 5 x 3 sub-grid
+        cases += [("polyrs", ri, si, n, mk) for ri in range(5) for si in range(3)
+                  for n in range(top + 1, POLY_LONG_TOP + 1) for mk in (1, 3)]
+        groups += [(70 * len(c), c) for c in chunks(cases, 64)]
+        for cname, nv in (("AES", POLY_AES_VARIANTS), ("ChaCha20", POLY_CC_VARIANTS)):
+            cases = [("poly", cname, v, n, mk, False) for v in range(4, nv) for n in range(0, 130) for mk in (1, 3)]
+            groups += [(700 * len(c), c) for c in chunks(cases, 32)]
+            cases = [("poly", cname, v, n, 3, 3) for v in range(0, nv, 3) for n in (0, 1, 15, 16, 17, 32, 33)]
+            groups += [(22000 * len(c), c) for c in chunks(cases, 8)]
+            groups.append((8000000, [("poly", cname, 0, 17, 3, 2)]))
     return groups
 
 
 # ---- BLAKE2 ---------------------------------------------------------------------
-def d_b2grid(acc, variant, dbytes, maxmsg):
-    blake2_grid(acc, variant, dbytes, maxmsg)
+def d_b2grid(acc, variant, dbytes, maxmsg, alt=False):
+    blake2_grid(acc, variant, dbytes, maxmsg, alt)
 
 
 def d_b2full(acc, variant, dbytes, klen, n, use_bits, verify):
@@ -1340,23 +1644,805 @@ def d_b2full(acc, variant, dbytes, klen, n, use_bits, verify):
 def gen_blake2(q):
     groups = []
     for variant, maxd, block in (("b", 64, 128), ("s", 32, 64)):
-        maxmsg = (2 if q else 3) * block + 1
+        maxmsg = (2 if q else 5) * block + 1
         for d in range(1, maxd + 1):
             groups.append(((maxd + 1) * (maxmsg + 1) * 13, [("b2grid", variant, d, maxmsg)]))
-        cases = [("b2full", variant, d, kl, n, ub, False) for d in range(1, maxd + 1) for kl in (0, 1, maxd)
-                 for n in (0, block, block + 1) for ub in (False, True)]
-        groups += [(50 * len(c), c) for c in chunks(cases, 2)]
-        for d in _dedupe([1, 16, 20, maxd]):
-            cases = [("b2full", variant, d, kl, n, False, True) for kl in (0, 1, maxd) for n in (0, block + 1)]
-            groups.append((60 * 18 * d * len(cases), cases))
+            if not q:
+                groups.append(((maxd + 1) * (maxmsg + 1) * 16, [("b2grid", variant, d, maxmsg, True)]))
+        cases = [("b2full", variant, d, kl, n, ub, False) for d in range(1, maxd + 1)
+                 for kl in ((0, 1, maxd) if q else range(0, maxd + 1))
+                 for n in ((0, block, block + 1) if q else (0, 1, block - 1, block, block + 1, 2 * block))
+                 for ub in (False, True)]
+        groups += [(50 * len(c), c) for c in chunks(cases, 2 if q else 24)]
+        for d in (_dedupe([1, 16, 20, maxd]) if q else range(1, maxd + 1)):
+            cases = [("b2full", variant, d, kl, n, False, True if q else 3) for kl in (0, 1, maxd)
+                     for n in (0, block + 1)]
+            groups.append(((60 if q else 120) * 18 * d * len(cases), cases))
+        if not q:
+            for d in (1, 2, 8, 16):
+                groups.append((500000 * d, [("b2full", variant, d, maxd, block + 1, False, 2)]))
+    return groups
+
+
+# ===========================================================================
+# thorough-only deep parts (never enumerated in the quick tier):
+#   seg     - segmented feeding: every 2-piece / 3-piece split of every message length, for every
+#             algorithm that has update(); pieces as bytes, as bytearray/memoryview slices, with a
+#             copy() taken mid-stream, with digest() called mid-stream
+#   rseg    - segmented reading of the XOFs: every 2-/3-piece split of every output length
+#   xofgrid - XOFs: full product message length x output length through new(data=m).read(n)
+# These are tight loops (one reference computation per message, many library runs); a mismatch is
+# re-run through check_seg / check_rseg which reports it with a replayable case.
+# ===========================================================================
+class Subject(object):
+    """One algorithm with every parameter fixed (spec = JSON-able list holding the concrete values)."""
+
+    def __init__(self, spec):
+        L = lib()
+        self.spec = spec
+        k = spec[0]
+        self.copy = False        # object has a working copy()
+        self.mk_uad = None       # factory of an object on which update() may follow digest()
+        self.mk_vp = None        # factory passing key / nonce / customisation as memoryview slice / bytearray
+        self.xof = False
+        self.std = "its standard"
+        if k == "hash":
+            algo = spec[1]
+            H = L["hash"][algo]
+            self.fam, self.name, self.label = "hash", algo, algo
+            self.mk = H.new_empty
+            self.mkd = H.new_kw
+            self.fin = _digest
+            self.ref = R.HASH_REF[algo][0]
+            self.copy = not algo.startswith(("keccak", "BLAKE2"))
+            if algo.startswith(("SHA3_", "keccak", "BLAKE2")):
+                self.mk_uad = lambda: H.mod.new(update_after_digest=True, **H.kw)
+            else:
+                self.mk_uad = self.mk
+        elif k == "hmac":
+            hname, key = spec[1], spec[2]
+            HM = L["HMAC"]
+            dm = L["hash"][hname].digestmod
+            self.fam, self.name = "mac", "HMAC-" + hname
+            self.label = "%s/key%d" % (self.name, len(key))
+            self.mk = lambda: HM.new(key, digestmod=dm)
+            self.mkd = lambda m: HM.new(key, m, digestmod=dm)
+            self.mk_vp = lambda: HM.new(_mv(key), digestmod=dm)
+            self.fin = _digest
+            self.ref = lambda m: R.hmac_ref(hname, key, m)
+            self.copy = True
+            # HMAC.digest() finalises the inner hash object; SHA-3 objects then refuse update() (documented
+            # behaviour of SHA-3 without update_after_digest), so digest-mid-stream is not explored there
+            self.mk_uad = None if hname.startswith("SHA3_") else self.mk
+            self.std = "RFC 2104"
+        elif k == "cmac":
+            cname, key, mac_len = spec[1], spec[2], spec[3]
+            CM = L["CMAC"]
+            cmod = L["cipher"][cname]
+            outlen = cmod.block_size if mac_len is None else mac_len
+            kw = {} if mac_len is None else {"mac_len": mac_len}
+            self.fam, self.name = "mac", "CMAC-" + cname
+            self.label = "%s/key%d/mac%s" % (self.name, len(key), mac_len)
+            self.mk = lambda: CM.new(key, ciphermod=cmod, **kw)
+            self.mkd = lambda m: CM.new(key, msg=m, ciphermod=cmod, **kw)
+            self.mk_vp = lambda: CM.new(bytearray(key), ciphermod=cmod, **kw)
+            self.fin = _digest
+            self.ref = lambda m: R.cmac_ref(_cmac_cipher(cname, key), m)[:outlen]
+            self.copy = True
+            self.mk_uad = lambda: CM.new(key, ciphermod=cmod, update_after_digest=True, **kw)
+            self.std = "SP 800-38B"
+        elif k == "kmac":
+            bits, key, custom, mac_len = spec[1:5]
+            mod = L["KMAC"][bits]
+            self.fam, self.name = "mac", "KMAC%d" % bits
+            self.label = "%s/key%d/custom%d/mac%d" % (self.name, len(key), len(custom), mac_len)
+            self.mk = lambda: mod.new(key=key, custom=custom, mac_len=mac_len)
+            self.mkd = lambda m: mod.new(key=key, custom=custom, mac_len=mac_len, data=m)
+            self.mk_vp = lambda: mod.new(key=_mv(key), custom=bytearray(custom), mac_len=mac_len)
+            self.fin = _digest
+            self.ref = lambda m: R.kmac_ref(bits, key, m, mac_len, custom)
+            self.std = "SP 800-185"
+        elif k == "polyrs":
+            r, s = spec[1], spec[2]
+            P = L["Poly1305"]
+            self.fam, self.name = "mac", "Poly1305"
+            self.label = "Poly1305/r=%s/s=%s" % (r.hex(), s[:2].hex())
+            self.mk = lambda: P.Poly1305_MAC(r, s, None)
+            self.mkd = lambda m: P.Poly1305_MAC(r, s, m)
+            self.fin = _digest
+            self.ref = lambda m: R.poly_ref(r, s, m)
+            self.std = "RFC 8439"
+        elif k == "poly":
+            cname, key, nonce = spec[1:4]
+            P = L["Poly1305"]
+            cmod = L["cipher"][cname]
+            r, s = R.poly_aes_rs(key, nonce) if cname == "AES" else R.poly_chacha_rs(key, nonce)
+            self.fam, self.name = "mac", "Poly1305-" + cname
+            self.label = "%s/key=%s..%s/nonce=%s(%d)" % (self.name, key[:4].hex(), key[-2:].hex(), nonce[:2].hex(),
+                                                        len(nonce))
+            self.mk = lambda: P.new(key=key, cipher=cmod, nonce=nonce)
+            self.mkd = lambda m: P.new(key=key, cipher=cmod, nonce=nonce, data=m)
+            self.mk_vp = lambda: P.new(key=_mv(key), cipher=cmod, nonce=bytearray(nonce))
+            self.fin = _digest
+            self.ref = lambda m: R.poly_ref(r, s, m)
+        elif k == "blake2":
+            variant, dbytes, key = spec[1:4]
+            mod = L["BLAKE2"][variant]
+            kw = {"digest_bytes": dbytes}
+            if key:
+                kw["key"] = key
+            self.fam, self.name = ("mac" if key else "hash"), "BLAKE2" + variant
+            self.label = "%s/digest%d/key%d" % (self.name, dbytes, len(key))
+            self.mk = lambda: mod.new(**kw)
+            self.mkd = lambda m: mod.new(data=m, **kw)
+            self.fin = _digest
+            self.ref = lambda m: _b2ref(variant, dbytes, key, m)
+            self.mk_uad = lambda: mod.new(update_after_digest=True, **kw)
+            if key and variant == "b":        # BLAKE2s documents a byte string key only
+                self.mk_vp = lambda: mod.new(digest_bytes=dbytes, key=bytearray(key))
+            self.std = "RFC 7693"
+        elif k == "shake":
+            bits, outlen = spec[1], spec[2]
+            mod = L["SHAKE"][bits]
+            f = hashlib.shake_128 if bits == 128 else hashlib.shake_256
+            self._xof("SHAKE%d" % bits, "SHAKE%d" % bits, outlen, mod.new, lambda m: mod.new(data=m),
+                      lambda m, n: f(m).digest(n), "FIPS 202")
+            self.copy = True
+        elif k == "cshake":
+            bits, custom, outlen = spec[1:4]
+            mod = L["cSHAKE"][bits]
+            self._xof("cSHAKE%d" % bits, "cSHAKE%d/custom%d" % (bits, len(custom)), outlen,
+                      lambda: mod.new(custom=custom), lambda m: mod.new(data=m, custom=custom),
+                      lambda m, n: R.cshake_ref(bits, m, n, b"", custom), "SP 800-185")
+        elif k == "turbo":
+            bits, domain, outlen = spec[1:4]
+            mod = L["TurboSHAKE"][bits]
+            self._xof("TurboSHAKE%d" % bits, "TurboSHAKE%d/domain%02x" % (bits, domain), outlen,
+                      lambda: mod.new(domain=domain), lambda m: mod.new(domain=domain, data=m),
+                      lambda m, n: K.turboshake(bits, m, n, domain), "RFC 9861")
+        elif k == "k12":
+            custom, outlen = spec[1], spec[2]
+            mod = L["K12"]
+            kw = {} if custom is None else {"custom": custom}
+            cu = custom or b""
+            self._xof("K12", "K12/custom%s" % (None if custom is None else len(custom)), outlen,
+                      lambda: mod.new(**kw), lambda m: mod.new(data=m, **kw),
+                      lambda m, n: (R.k12_ref(bytes(m), cu)[:n] if n <= R.K12_MAXOUT
+                                    else K.kangarootwelve(bytes(m), cu, n)), "RFC 9861")
+        else:
+            raise AssertionError("bad subject %r" % (spec,))
+
+    def _xof(self, name, label, outlen, mk, mkd, refx, std):
+        self.fam, self.name, self.xof, self.std = "xof", name, True, std
+        self.label = "%s/out%d" % (label, outlen)
+        self.outlen = outlen
+        self.mk, self.mkd, self.refx = mk, mkd, refx
+        self.fin = lambda o: o.read(outlen)
+        self.ref = lambda m: refx(m, outlen)
+
+
+def _digest(o):
+    return o.digest()
+
+
+def _mv(b):
+    """memoryview slice with a non-zero offset into a larger buffer"""
+    return memoryview(b"\xa5" + bytes(b) + b"\x5a")[1:1 + len(b)]
+
+
+_SUBJ = {}
+
+
+def subject(spec):
+    k = repr(spec)
+    s = _SUBJ.get(k)
+    if s is None:
+        if len(_SUBJ) > 256:
+            _SUBJ.clear()
+        s = _SUBJ[k] = Subject(spec)
+    return s
+
+
+def spec_of(sd):
+    """compact shard descriptor (ints only) -> concrete spec (parameter values materialised with val())"""
+    k = sd[0]
+    if k == "hash":
+        return ["hash", sd[1]]
+    if k == "hmac":                                   # hash, key length, key kind
+        return ["hmac", sd[1], val(sd[3], sd[2], "hmac-key")]
+    if k == "cmac":                                   # cipher, key length, key kind, mac_len
+        return ["cmac", sd[1], val(sd[3], sd[2], "cmac-key"), sd[4]]
+    if k == "kmac":                                   # bits, key length, custom length, mac_len
+        return ["kmac", sd[1], val(3, sd[2], "kmac-key"), val(3, sd[3], "kmac-custom"), sd[4]]
+    if k == "polyrs":
+        return ["polyrs", _poly_r(sd[1]), _poly_s(sd[2])]
+    if k == "poly":
+        key, nonce = poly_key_nonce(sd[1], sd[2])
+        return ["poly", sd[1], key, nonce]
+    if k == "blake2":                                 # variant, digest bytes, key length
+        return ["blake2", sd[1], sd[2], val(3, sd[3], "b2key")]
+    if k == "shake":                                  # bits, output length
+        return ["shake", sd[1], sd[2]]
+    if k == "cshake":                                 # bits, custom length, output length
+        return ["cshake", sd[1], val(3, sd[2], "cshake-custom"), sd[3]]
+    if k == "turbo":                                  # bits, domain, output length
+        return ["turbo", sd[1], sd[2], sd[3]]
+    if k == "k12":                                    # custom length or None, output length
+        return ["k12", None if sd[1] is None else val(3, sd[1], "k12-custom"), sd[2]]
+    raise AssertionError("bad subject descriptor %r" % (sd,))
+
+
+SEG_MODES = {"bytes": "segmented-update", "views": "segmented-update-bytearray-memoryview",
+             "copy": "copy-mid-stream", "uad": "digest-mid-stream", "data+update": "new-data-then-update",
+             "viewparams": "bytearray-memoryview-parameters", "viewdata+update": "new-data-memoryview-then-update"}
+
+
+def seg_run(S, msg, cuts, mode):
+    """Feed msg to a fresh object in len(cuts)+1 pieces; returns [(which output, bytes consumed, output)]."""
+    n = len(msg)
+    pts = (0,) + tuple(cuts) + (n,)
+    if mode == "bytes":
+        o = S.mk()
+        for i in range(len(pts) - 1):
+            o.update(msg[pts[i]:pts[i + 1]])
+        return [("final", n, S.fin(o))]
+    if mode == "data+update":
+        o = S.mkd(msg[:pts[1]])
+        for i in range(1, len(pts) - 1):
+            o.update(msg[pts[i]:pts[i + 1]])
+        return [("final", n, S.fin(o))]
+    if mode == "viewdata+update":
+        o = S.mkd(memoryview(msg)[:pts[1]])
+        for i in range(1, len(pts) - 1):
+            o.update(bytearray(msg[pts[i]:pts[i + 1]]))
+        return [("final", n, S.fin(o))]
+    if mode in ("views", "viewparams"):
+        o = S.mk() if mode == "views" else S.mk_vp()
+        mv = memoryview(msg)
+        for i in range(len(pts) - 1):
+            o.update(mv[pts[i]:pts[i + 1]] if i & 1 else bytearray(msg[pts[i]:pts[i + 1]]))
+        return [("final", n, S.fin(o))]
+    if mode == "copy":
+        o = S.mk()
+        o.update(msg[:pts[1]])
+        g = o.copy()
+        for i in range(1, len(pts) - 1):
+            g.update(msg[pts[i]:pts[i + 1]])
+        dg = S.fin(g)
+        for i in range(1, len(pts) - 1):
+            o.update(msg[pts[i]:pts[i + 1]])
+        return [("copy", n, dg), ("original", n, S.fin(o))]
+    if mode == "uad":
+        o = S.mk_uad()
+        out = []
+        for i in range(len(pts) - 1):
+            o.update(msg[pts[i]:pts[i + 1]])
+            out.append(("digest after piece %d" % (i + 1), pts[i + 1], S.fin(o)))
+        return out
+    raise AssertionError("bad seg mode")
+
+
+def check_seg(acc, spec, msg, cuts, mode, counted=False):
+    S = subject(spec)
+    cuts = tuple(cuts)
+    if not counted:
+        acc.count("evaluations")
+        acc.count("seg_cases")
+        acc.seen("shapes", ("seg", S.label, len(msg), len(cuts) + 1, mode))
+    case = {"part": "seg", "spec": spec, "msg": msg, "cuts": list(cuts), "mode": mode}
+    what = "%s, %d-byte message %s fed by update() in pieces cut at %s (%s)" % (
+        S.label, len(msg), short(msg, 24), list(cuts), SEG_MODES[mode])
+    try:
+        outs = seg_run(S, msg, cuts, mode)
+    except Exception as e:  # noqa
+        return _raised(acc, S.fam, S.name, e, what, case)
+    for which, end, got in outs:
+        exp = S.ref(msg[:end])
+        if got != exp:
+            acc.violation("C03/%s/%s/%s" % (S.fam, S.name, SEG_MODES[mode]),
+                          "%s: %s over the first %d bytes = %s, %s says %s"
+                          % (what, which, end, short(got), S.std, short(exp)), case)
+            return
+
+
+def _cut_tuples(n, npieces):
+    """every non-decreasing (npieces-1)-tuple of cut positions in 0..n (empty pieces included)"""
+    if npieces == 2:
+        for c in range(n + 1):
+            yield (c,)
+    elif npieces == 3:
+        for c1 in range(n + 1):
+            for c2 in range(c1, n + 1):
+                yield (c1, c2)
+    elif npieces == 4:
+        for c1 in range(n + 1):
+            for c2 in range(c1, n + 1):
+                for c3 in range(c2, n + 1):
+                    yield (c1, c2, c3)
+    else:
+        raise AssertionError("pieces")
+
+
+def seg_count(ns, npieces):
+    if npieces == 2:
+        return sum(n + 1 for n in ns)
+    if npieces == 3:
+        return sum((n + 1) * (n + 2) // 2 for n in ns)
+    return sum((n + 1) * (n + 2) * (n + 3) // 6 for n in ns)
+
+
+def _ns(lo, hi, stride, off):
+    return range(lo + off, hi + 1, stride)
+
+
+def seg_grid(acc, sd, kind, lo, hi, stride, off, npieces, mode):
+    """every message length n in lo+off, lo+off+stride, .. <= hi  x  every way to cut it into npieces pieces"""
+    spec = spec_of(sd)
+    S = subject(spec)
+    buf = val(kind, hi, "seg-msg")
+    prefix_ref = {}
+    cnt = 0
+    for n in _ns(lo, hi, stride, off):
+        msg = buf[:n]
+        exp = S.ref(msg)
+        prefix_ref[n] = exp
+        acc.seen("shapes", ("seg", S.label, n, npieces, mode))
+        for cuts in _cut_tuples(n, npieces):
+            cnt += 1
+            try:
+                bad = False
+                for _, end, got in seg_run(S, msg, cuts, mode):
+                    if end == n:
+                        e = exp
+                    else:
+                        e = prefix_ref.get(end)
+                        if e is None:
+                            e = prefix_ref[end] = S.ref(buf[:end])
+                    if got != e:
+                        bad = True
+            except Exception:  # noqa
+                bad = True
+            if bad:
+                check_seg(acc, spec, msg, cuts, mode, counted=True)
+    acc.seen("seg-subjects/" + mode, S.label)
+    acc.seen("out/seg", exp[:6])
+    acc.count("evaluations", cnt)
+    acc.count("seg_cases", cnt)
+
+
+def check_rseg(acc, spec, msg, reads, entry="update", counted=False):
+    """XOF: output read in pieces.  entry: 'update' = new().update(m), 'data' = new(data=m)."""
+    S = subject(spec)
+    reads = tuple(reads)
+    total = sum(reads)
+    if not counted:
+        acc.count("evaluations")
+        acc.count("rseg_cases")
+        acc.seen("shapes", ("rseg", S.label, len(msg), reads, entry))
+    case = {"part": "rseg", "spec": spec, "msg": msg, "reads": list(reads), "entry": entry}
+    what = "%s, %d-byte message %s (%s), output read as %s" % (
+        S.label, len(msg), short(msg, 24), "new(data=m)" if entry == "data" else "update(m)", list(reads))
+    try:
+        if entry == "data":
+            o = S.mkd(msg)
+        else:
+            o = S.mk()
+            o.update(msg)
+        got = b"".join(o.read(r) for r in reads)
+    except Exception as e:  # noqa
+        return _raised(acc, "xof", S.name, e, what, case)
+    exp = S.refx(msg, total)
+    if got != exp:
+        acc.violation("C03/xof/%s/%s" % (S.name, "value" if len(reads) == 1 else "segmented-read"),
+                      "%s: %s, %s says %s" % (what, short(got), S.std, short(exp)), case)
+
+
+def rseg_grid(acc, sd, kind, n, lo, hi, stride, off, npieces):
+    """one message of n bytes; every total output length T in the range x every split of T into npieces reads"""
+    spec = spec_of(sd)
+    S = subject(spec)
+    msg = val(kind, n, "rseg-msg")
+    full = S.refx(msg, hi)
+    cnt = 0
+    for T in _ns(lo, hi, stride, off):
+        exp = full[:T]
+        acc.seen("shapes", ("rseg", S.label, n, T, npieces))
+        acc.seen("out/rseg", exp[-6:])
+        for cuts in _cut_tuples(T, npieces):
+            cnt += 1
+            pts = (0,) + cuts + (T,)
+            reads = tuple(pts[i + 1] - pts[i] for i in range(len(pts) - 1))
+            try:
+                o = S.mk()
+                o.update(msg)
+                bad = b"".join([o.read(r) for r in reads]) != exp
+            except Exception:  # noqa
+                bad = True
+            if bad:
+                check_rseg(acc, spec, msg, reads, "update", counted=True)
+    acc.seen("out/rseg", full[:6])
+    acc.count("evaluations", cnt)
+    acc.count("rseg_cases", cnt)
+
+
+def xof_grid(acc, sd, kind, lo, hi, stride, off, omax):
+    """every message length in the range x every output length 0..omax, new(data=m).read(n)"""
+    spec = spec_of(sd)
+    S = subject(spec)
+    buf = val(kind, hi, "xofgrid-msg")
+    cnt = 0
+    for n in _ns(lo, hi, stride, off):
+        msg = buf[:n]
+        full = S.refx(msg, omax)
+        acc.seen("shapes", ("xofgrid", S.label, n, omax))
+        acc.seen("out/xofgrid", full[:6])
+        for o in range(omax + 1):
+            cnt += 1
+            try:
+                bad = S.mkd(msg).read(o) != full[:o]
+            except Exception:  # noqa
+                bad = True
+            if bad:
+                check_rseg(acc, spec, msg, (o,), "data", counted=True)
+    acc.count("evaluations", cnt)
+    acc.count("xofgrid_cases", cnt)
+
+
+def check_one(acc, spec, msg, counted=False):
+    """one computation through new(..., data=m) for a Subject spec"""
+    S = subject(spec)
+    if not counted:
+        acc.count("evaluations")
+        acc.count("pgrid_cases")
+        acc.seen("shapes", ("one", S.label, len(msg)))
+    case = {"part": "one", "spec": spec, "msg": msg}
+    what = "%s, %d-byte message %s" % (S.label, len(msg), short(msg, 24))
+    try:
+        got = S.fin(S.mkd(msg))
+    except Exception as e:  # noqa
+        return _raised(acc, S.fam, S.name, e, what, case)
+    exp = S.ref(msg)
+    if got != exp:
+        acc.violation("C03/%s/%s/value" % (S.fam, S.name),
+                      "%s: library returns %s, %s says %s" % (what, short(got), S.std, short(exp)), case)
+
+
+PGRID = {
+    # family: (parameter value -> compact subject descriptor)
+    "cshake-custom": lambda bits, p: ("cshake", bits, p, 32),
+    "kmac-key": lambda bits, p: ("kmac", bits, p, 0, 32),
+    "kmac-custom": lambda bits, p: ("kmac", bits, KMAC_MINKEY[bits] + 1, p, 32),
+    "kmac-maclen": lambda bits, p: ("kmac", bits, KMAC_MINKEY[bits], 1, p),
+    "k12-custom": lambda bits, p: ("k12", p, 32),
+}
+
+
+def param_grid(acc, fam, bits, lo, hi, stride, off, nmax):
+    """every parameter value in the strided range x every message length 0..nmax, new(data=m)"""
+    buf = val(3, nmax, "pgrid-msg")
+    cnt = 0
+    for pv in _ns(lo, hi, stride, off):
+        spec = spec_of(PGRID[fam](bits, pv))
+        S = subject(spec)
+        acc.seen("shapes", ("pgrid", fam, bits, pv, nmax))
+        for n in range(nmax + 1):
+            cnt += 1
+            msg = buf[:n]
+            try:
+                exp = S.ref(msg)
+                bad = S.fin(S.mkd(msg)) != exp
+            except Exception:  # noqa
+                bad = True
+            if bad:
+                check_one(acc, spec, msg, counted=True)
+        acc.seen("out/pgrid", exp[:6])
+    acc.count("evaluations", cnt)
+    acc.count("pgrid_cases", cnt)
+
+
+def d_pgrid(acc, fam, bits, lo, hi, stride, off, nmax):
+    param_grid(acc, fam, bits, lo, hi, stride, off, nmax)
+
+
+def gen_pgrid(q):
+    if q:
+        return []
+    groups = []
+    for bits in (128, 256):
+        r = _rate(bits)
+        mk = KMAC_MINKEY[bits]
+        for fam, lo, hi, nmax in (("cshake-custom", 0, 3 * r + 1, 3 * r + 1), ("kmac-key", mk, 2 * r + 2, 2 * r + 1),
+                                  ("kmac-custom", 0, 2 * r + 1, 2 * r + 1), ("kmac-maclen", 8, 2 * r + 1, 2 * r + 1)):
+            groups += _strided("pgrid", (fam, bits), (nmax,), lo, hi, lambda ns: len(ns) * (nmax + 1), 1000)
+        groups += _strided("thgrid", (bits,), (2 * r + 1,), 0, 2 * r + 1, lambda ns: len(ns) * (2 * r + 2), 1300)
+        groups += _strided("thgrid", (bits,), (2 * r + 1, True), 0, 2 * r + 1, lambda ns: len(ns) * (2 * r + 2), 1400)
+    groups += _strided("pgrid", ("k12-custom", 0), (337,), 0, 337, lambda ns: len(ns) * 338, 1100)
+    return groups
+
+
+def tuplehash_pair_grid(acc, bits, lo, hi, stride, off, bmax, views=False):
+    """TupleHash of (a, b): every length of a in the strided range x every length of b in 0..bmax
+    views: a passed as bytearray, b as memoryview slice, one update() call per item"""
+    mod = lib()["TupleHash"][bits]
+    A = val(3, hi, "th-item0")
+    B = val(3, bmax, "th-item1")
+    cnt = 0
+    for la in _ns(lo, hi, stride, off):
+        acc.seen("shapes", ("thgrid", bits, la, bmax, views))
+        for lb in range(bmax + 1):
+            cnt += 1
+            items = [A[:la], B[:lb]]
+            try:
+                exp = R.tuplehash_ref(bits, items, 32, b"")
+                if views:
+                    bad = mod.new(digest_bytes=32).update(bytearray(items[0])).update(_mv(items[1])).digest() != exp
+                else:
+                    bad = mod.new(digest_bytes=32).update(*items).digest() != exp
+            except Exception:  # noqa
+                bad = True
+            if bad:
+                acc.count("tuplehash_cases", -1)       # reported through the general check, not a tuplehash_cases case
+                check_tuplehash(acc, bits, items, None, 32)
+        acc.seen("out/pgrid", exp[:6])
+    acc.count("evaluations", cnt)
+    acc.count("thgrid_cases", cnt)
+
+
+def d_thgrid(acc, bits, lo, hi, stride, off, bmax, views=False):
+    tuplehash_pair_grid(acc, bits, lo, hi, stride, off, bmax, views)
+
+
+def d_seg(acc, sd, kind, lo, hi, stride, off, npieces, mode):
+    seg_grid(acc, sd, kind, lo, hi, stride, off, npieces, mode)
+
+
+def d_rseg(acc, sd, kind, n, lo, hi, stride, off, npieces):
+    rseg_grid(acc, sd, kind, n, lo, hi, stride, off, npieces)
+
+
+def d_xofgrid(acc, sd, kind, lo, hi, stride, off, omax):
+    xof_grid(acc, sd, kind, lo, hi, stride, off, omax)
+
+
+def d_xofone(acc, sd, kind, n, reads, entry):
+    check_rseg(acc, spec_of(sd), val(kind, n, "rseg-msg"), reads, entry)
+
+
+# ---- generators of the deep parts (thorough tier only) ------------------------------------------
+SEG_UNIT = {"hash": 15, "hmac": 60, "cmac": 110, "kmac": 45, "polyrs": 13, "poly": 30, "blake2": 15,
+            "shake": 16, "cshake": 26, "turbo": 16, "k12": 20}          # ~0.5 us units per library run (one read)
+XOF_UNIT = {"shake": 45, "cshake": 50, "turbo": 42, "k12": 50}          # same, several read() calls
+SEG_MODE_FACTOR = {"bytes": 1.0, "views": 1.0, "copy": 2.0, "uad": 1.7, "data+update": 1.0, "viewparams": 1.1,
+                   "viewdata+update": 1.0}
+SEG_VIEWS_EXTRA = 50                                                     # bytearray / memoryview marshalling
+GROUP_TARGET = 5000000                                                   # ~2.5 s per group
+
+
+def _strided(tag, head, tail, lo, hi, count_fn, unit, extra=0):
+    """Split the range lo..hi into interleaved strides so that one group costs about GROUP_TARGET."""
+    total = count_fn(range(lo, hi + 1)) * unit + extra
+    stride = max(1, min(hi - lo + 1, int(total // GROUP_TARGET) + 1))
+    out = []
+    for off in range(stride):
+        ns = range(lo + off, hi + 1, stride)
+        out.append((int(count_fn(ns) * unit + extra / stride) + 2000, [(tag,) + head + (lo, hi, stride, off) + tail]))
+    return out
+
+
+def _seg_groups(sd, kind, hi, npieces, mode, refcost=0):
+    unit = (SEG_UNIT[sd[0]] * SEG_MODE_FACTOR[mode] + (SEG_VIEWS_EXTRA if mode in ("views", "viewparams", "viewdata+update") else 0)) \
+        * (1.0, 1.25, 1.5)[npieces - 2]
+    return _strided("seg", (sd, kind), (npieces, mode), 0, hi, lambda ns: seg_count(ns, npieces), unit,
+                    extra=refcost * (hi + 1))
+
+
+SEG_HMAC_KINDS = 3
+SEG_CMAC_KEYS = {"AES": (16, 24, 32), "DES3": (16, 24), "DES": (8,), "Blowfish": (4, 16, 56), "CAST": (5, 16),
+                 "ARC2": (5, 16, 128)}
+
+
+# four pieces (message 0..block+1): every 64-byte-block hash, MD2, one representative of the SHA-2 512 template,
+# BLAKE2b, Keccak with every SHA-3 rate (72, 104, 136, 144) and legacy Keccak-512
+SEG_FOUR_PIECES = ("MD2", "MD4", "MD5", "RIPEMD160", "SHA1", "SHA224", "SHA256", "BLAKE2s", "SHA512", "BLAKE2b",
+                   "SHA3_512", "keccak512", "SHA3_384", "SHA3_256", "SHA3_224")
+
+
+def _seg_plan_base():
+    """[(subject descriptor, value kind, top message length, pieces, mode, reference cost per message)]"""
+    plan = []
+    for algo, (f, B, D, hl) in R.HASH_REF.items():
+        if "alias" in algo:
+            continue
+        S_copy = not algo.startswith(("keccak", "BLAKE2"))
+        rc = 0 if hl is not None else (2600 if algo == "MD2" else 1400)
+        sd = ("hash", algo)
+        for kind in (2, 3):
+            plan.append((sd, kind, 4 * B + 1, 2, "bytes", rc))
+        plan.append((sd, 3, 4 * B + 1, 2, "views", rc))
+        plan.append((sd, 3, 4 * B + 1, 2, "uad", rc))
+        plan.append((sd, 3, 3 * B + 1, 3, "bytes", rc))
+        top3 = (2 if B <= 72 else 1) * B + 1
+        plan.append((sd, 3, top3, 3, "uad", rc))
+        plan.append((sd, 3, top3, 3, "views", rc))
+        if S_copy:
+            plan.append((sd, 3, 4 * B + 1, 2, "copy", rc))
+            plan.append((sd, 3, top3, 3, "copy", rc))
+        if algo in SEG_FOUR_PIECES:
+            plan.append((sd, 3, B + 1, 4, "bytes", rc))
+    for hname in HMAC_HASHES:
+        if "alias" in hname:
+            continue
+        f, B, D, hl = R.HASH_REF[hname]
+        rc = 200 if hl is not None else (12000 if hname == "MD2" else 5000)
+        for kl in (0, 1, B - 1, B, B + 1, 2 * B + 1):
+            sd = ("hmac", hname, kl, 3)
+            plan.append((sd, 3, 2 * B + 1, 2, "bytes", rc))
+            if kl in (0, B, B + 1):
+                plan.append((sd, 3, 2 * B + 1, 2, "copy", rc))
+                if not hname.startswith("SHA3_"):
+                    plan.append((sd, 3, 2 * B + 1, 2, "uad", rc))
+            if kl in (B, B + 1):
+                plan.append((sd, 3, 2 * B + 1, 2, "views", rc))
+                plan.append((sd, 3, B + 1 if kl == B + 1 else min(B + 1, 73), 3, "bytes", rc))
+    for cname, kls in SEG_CMAC_KEYS.items():
+        bs = 16 if cname == "AES" else 8
+        rc = CMAC_REFCOST[cname] * 2 * 6
+        for kl in kls:
+            sd = ("cmac", cname, kl, 3, None)
+            for kind in (2, 3):
+                plan.append((sd, kind, 8 * bs + 1, 2, "bytes", rc))
+            for mode in ("views", "copy", "uad"):
+                plan.append((sd, 3, 8 * bs + 1, 2, mode, rc))
+            for mode in ("bytes", "views", "copy", "uad"):
+                plan.append((sd, 3, 4 * bs + 1, 3, mode, rc))
+            plan.append((sd, 3, 2 * bs + 1, 4, "bytes", rc))
+        for ml in range(4, bs):                            # every truncated mac_len, two pieces
+            plan.append((("cmac", cname, kls[0], 3, ml), 3, 4 * bs + 1, 2, "bytes", rc))
+    for bits in (128, 256):
+        r = _rate(bits)
+        mk = KMAC_MINKEY[bits]
+        for kl in (mk, r + 1):
+            for cl in (0, 1):
+                sd = ("kmac", bits, kl, cl, 32)
+                plan.append((sd, 3, 2 * r + 1, 2, "bytes", 900))
+                plan.append((sd, 3, 2 * r + 1, 2, "views", 900))
+        plan.append((("kmac", bits, mk, 0, 32), 3, r + 1, 3, "bytes", 900))
+        for m in (8, 64, r + 1):                           # more mac_len values, two pieces
+            plan.append((("kmac", bits, mk + 1, 1, m), 3, 2 * r + 1, 2, "bytes", 900))
+    for ri, si in ((4, 2), (2, 1), (1, 1), (0, 0)):
+        sd = ("polyrs", ri, si)
+        plan.append((sd, 3, 257, 2, "bytes", 60))
+        plan.append((sd, 1, 257, 2, "bytes", 60))
+        plan.append((sd, 3, 257, 2, "views", 60))
+        plan.append((sd, 3, 81, 3, "bytes", 60))
+    for cname, v in (("AES", 0), ("AES", 1), ("ChaCha20", 0), ("ChaCha20", 1)):
+        plan.append((("poly", cname, v), 3, 129, 2, "bytes", 100))
+    for variant, maxd, B in (("b", 64, 128), ("s", 32, 64)):
+        for d in (1, maxd):
+            for kl in (0, 1, maxd):
+                sd = ("blake2", variant, d, kl)
+                for mode in ("bytes", "views", "uad"):
+                    plan.append((sd, 3, 4 * B + 1, 2, mode, 0))
+        for kl in (0, maxd):
+            plan.append((("blake2", variant, maxd, kl), 3, 2 * B + 1, 3, "bytes", 0))
+            plan.append((("blake2", variant, maxd, kl), 3, B + 1, 3, "uad", 0))
+        for d in (16, 20, maxd // 2, maxd - 1):           # more digest sizes, two pieces
+            for kl in (0, maxd):
+                plan.append((("blake2", variant, d, kl), 3, 4 * B + 1, 2, "bytes", 0))
+    for bits in (128, 256):
+        r = _rate(bits)
+        sd = ("shake", bits, 32)
+        for mode in ("bytes", "views", "copy"):
+            plan.append((sd, 3, 4 * r + 1, 2, mode, 0))
+        plan.append((sd, 3, 2 * r + 1, 3, "bytes", 0))
+        plan.append((sd, 3, r + 1, 3, "copy", 0))
+        if bits == 128:
+            plan.append((sd, 3, r + 1, 4, "bytes", 0))        # the 168-byte rate, four pieces
+        for o in (1, r, r + 1):                            # more output lengths, two pieces
+            plan.append((("shake", bits, o), 3, 2 * r + 1, 2, "bytes", 0))
+            plan.append((("cshake", bits, 1, o), 3, 2 * r + 1, 2, "bytes", 900))
+            plan.append((("turbo", bits, 0x1F, o), 3, 2 * r + 1, 2, "bytes", 900))
+        for cl in (1, r - 7):
+            sd = ("cshake", bits, cl, 32)
+            plan.append((sd, 3, 3 * r + 1, 2, "bytes", 900))
+            plan.append((sd, 3, 3 * r + 1, 2, "views", 900))
+        plan.append((("cshake", bits, 1, 32), 3, r + 1, 3, "bytes", 900))
+        for dom in (0x1F, 0x01, 0x7F):
+            sd = ("turbo", bits, dom, 32)
+            plan.append((sd, 3, 3 * r + 1, 2, "bytes", 900))
+            plan.append((sd, 3, 3 * r + 1, 2, "views", 900))
+        plan.append((("turbo", bits, 0x1F, 32), 3, r + 1, 3, "bytes", 900))
+    for cl in (None, 1):
+        sd = ("k12", cl, 32)
+        plan.append((sd, 3, 2 * 168 + 1, 2, "bytes", 900))
+        plan.append((sd, 3, 2 * 168 + 1, 2, "views", 900))
+    plan.append((("k12", None, 32), 3, 100, 3, "bytes", 900))
+    for o in (1, 168, 169):
+        plan.append((("k12", 1, o), 3, 2 * 168 + 1, 2, "bytes", 900))
+    return plan
+
+
+def seg_plan():
+    plan = _seg_plan_base()
+    extra = []
+    for sd, kind, hi, npieces, mode, rc in plan:
+        if npieces == 2 and mode == "bytes" and kind == 3:
+            extra.append((sd, kind, hi, 2, "data+update", rc))
+            extra.append((sd, kind, hi, 2, "viewdata+update", rc))
+            if sd[0] in ("hmac", "cmac", "kmac", "poly") or (sd[0] == "blake2" and sd[1] == "b" and sd[3]):
+                extra.append((sd, kind, hi, 2, "viewparams", rc))
+    return plan + extra
+
+
+def gen_seg(q):
+    if q:
+        return []
+    groups = []
+    for sd, kind, hi, npieces, mode, rc in seg_plan():
+        groups += _seg_groups(sd, kind, hi, npieces, mode, rc)
+    return groups
+
+
+def xof_subjects():
+    out = []
+    for bits in (128, 256):
+        out += [("shake", bits, 32), ("cshake", bits, 1, 32), ("turbo", bits, 0x1F, 32)]
+    out.append(("k12", None, 32))
+    out.append(("k12", 1, 32))
+    return out
+
+
+def gen_rseg(q):
+    if q:
+        return []
+    groups = []
+    for sd in xof_subjects():
+        r = 168 if sd[0] == "k12" else _rate(sd[1])
+        unit = XOF_UNIT[sd[0]]
+        for n in (0, 1, r - 1, r + 1):
+            groups += _strided("rseg", (sd, 3, n), (2,), 0, 3 * r + 1, lambda ns: seg_count(ns, 2), unit, 4000)
+        groups += _strided("rseg", (sd, 3, 3), (3,), 0, (2 if sd[0] == "shake" or sd == ("k12", None, 32) else 1) * r + 1,
+                           lambda ns: seg_count(ns, 3), unit * 1.2, 4000)
+    return groups
+
+
+XOF_LONG_OUT_K = tuple(range(10, 17))
+
+
+def gen_xofgrid(q):
+    if q:
+        return []
+    groups = []
+    for bits in (128, 256):
+        r = _rate(bits)
+        plan = [(("shake", bits, 32), 3 * r + 1, 3 * r + 1, 0)]
+        plan += [(("cshake", bits, cl, 32), 2 * r + 1, 2 * r + 1, 1500) for cl in (1, 33, 300)]
+        plan += [(("turbo", bits, dom, 32), 2 * r + 1, 2 * r + 1, 1500) for dom in (0x1F, 0x01, 0x06, 0x07, 0x0B, 0x7F)]
+        for sd, nmax, omax, rc in plan:
+            groups += _strided("xofgrid", (sd, 3), (omax,), 0, nmax, lambda ns: len(ns) * (omax + 1),
+                               XOF_UNIT[sd[0]], rc * (nmax + 1))
+    for cl in (None, 1, 300):
+        groups += _strided("xofgrid", (("k12", cl, 32), 3), (337,), 0, 337, lambda ns: len(ns) * 338,
+                           XOF_UNIT["k12"], 1500 * 338)
+    # output lengths 2^k-1, 2^k, 2^k+1 (k = 10..16), read at once and in two halves
+    for sd in (("cshake", 128, 1, 32), ("cshake", 256, 1, 32), ("k12", None, 32), ("k12", 1, 32)):
+        for n in (17, 8193 if sd[0] == "k12" else 300):
+            for k in XOF_LONG_OUT_K:
+                cases = []
+                for d in (-1, 0, 1):
+                    cases.append(("xofone", sd, 3, n, ((1 << k) + d,), "data"))
+                    cases.append(("xofone", sd, 3, n, _split((1 << k) + d), "update"))
+                groups.append((len(cases) * (3000 + 3 * (1 << k)), cases))
     return groups
 
 
 DISPATCH = {"hash": d_hash, "hashbig": d_hashbig, "shake": d_shake, "cshake": d_cshake, "kmac": d_kmac,
             "tuplehash": d_tuplehash, "turbo": d_turbo, "k12": d_k12, "hmac": d_hmac, "cmac": d_cmac,
-            "polyrs": d_polyrs, "poly": d_poly, "b2grid": d_b2grid, "b2full": d_b2full}
+            "polyrs": d_polyrs, "poly": d_poly, "b2grid": d_b2grid, "b2full": d_b2full,
+            "seg": d_seg, "rseg": d_rseg, "xofgrid": d_xofgrid, "k12cuts": d_k12cuts, "xofone": d_xofone,
+            "pgrid": d_pgrid, "thgrid": d_thgrid}
 GENERATORS = (gen_hash, gen_shake, gen_cshake, gen_kmac, gen_tuplehash, gen_turbo, gen_k12, gen_hmac,
-              gen_cmac, gen_poly, gen_blake2)
+              gen_cmac, gen_poly, gen_blake2, gen_seg, gen_rseg, gen_xofgrid, gen_pgrid)
 
 
 def pack(groups, nshards):
@@ -1381,12 +2467,16 @@ def worker(shard):
         acc.error(str(e))
         return acc
     n0 = SEAM["n"]
+    import time
     for group in shard:
+        t0 = time.process_time()
         for case in group:
             if case[0] == "selftest":
                 selftest_case(acc, case[1])
             else:
                 DISPATCH[case[0]](acc, *case[1:])
+        if group:
+            acc.count("cpu_s/" + group[0][0], time.process_time() - t0)
     for v in _SAMPLES.values():
         acc.sample(v)
     acc.count("seam_calls", SEAM["n"] - n0)
@@ -1426,11 +2516,25 @@ def run(ctx):
                 if c[0] == "b2grid":
                     expected["blake2_grid_cases"] = expected.get("blake2_grid_cases", 0) \
                         + ((64 if c[1] == "b" else 32) + 1) * (c[3] + 1)
+                elif c[0] == "seg":
+                    expected["seg_cases"] = expected.get("seg_cases", 0) + seg_count(_ns(*c[3:7]), c[7])
+                elif c[0] == "rseg":
+                    expected["rseg_cases"] = expected.get("rseg_cases", 0) + seg_count(_ns(*c[4:8]), c[8])
+                elif c[0] == "k12cuts":
+                    expected["k12_cut_cases"] = expected.get("k12_cut_cases", 0) + len(_ns(*c[4:8]))
+                elif c[0] == "xofone":
+                    expected["rseg_cases"] = expected.get("rseg_cases", 0) + 1
+                elif c[0] == "thgrid":
+                    expected["thgrid_cases"] = expected.get("thgrid_cases", 0) + len(_ns(*c[2:6])) * (c[6] + 1)
+                elif c[0] == "pgrid":
+                    expected["pgrid_cases"] = expected.get("pgrid_cases", 0) + len(_ns(*c[3:7])) * (c[7] + 1)
+                elif c[0] == "xofgrid":
+                    expected["xofgrid_cases"] = expected.get("xofgrid_cases", 0) + len(_ns(*c[3:7])) * (c[7] + 1)
                 else:
                     expected[names[c[0]]] = expected.get(names[c[0]], 0) + 1
     nself = len(R.REF_MODULES) + 1
     groups += [(3000000, [("selftest", i)]) for i in range(nself)]
-    shards = pack(groups, max(32, ctx.workers * 6))
+    shards = pack(groups, max(32, ctx.workers * (6 if q else 40)))
     ctx.coverage_extra["enumeration_build_s"] = round(time.time() - t0, 2)
     ctx.pmap(worker, shards)
     a = ctx.acc
@@ -1460,6 +2564,9 @@ def run(ctx):
     ctx.require(any(s[0] == "k12" and s[1] == 0 and (s[2] or 0) >= 8190 and s[4] == ("none",) for s in shapes),
                 "the KangarooTwelve long-customisation / no-update case was not executed")
 
+    if not q:
+        deep_guards(ctx, a, shapes)
+
     per_part = {}
     for s in shapes:
         per_part[s[0]] = per_part.get(s[0], 0) + 1
@@ -1472,6 +2579,7 @@ def run(ctx):
         "verify_outcomes": {k: n.get("verify_" + k, 0) for k in ("accept", "reject", "other")},
         "policy_refusals_logged": n.get("refused_by_policy", 0),
         "shards": len(shards),
+        "cpu_seconds_per_part": {k[6:]: round(v, 1) for k, v in sorted(n.items()) if k.startswith("cpu_s/")},
         "grids": {
             "hash": "MD2 MD4 MD5 RIPEMD160 SHA1 SHA224/256/384/512 SHA512-224/256 SHA3-224..512 Keccak-224..512 "
                     "BLAKE2b-512 BLAKE2s-256 (+aliases SHA, RIPEMD): every message length 0..%s, value alphabet "
@@ -1513,17 +2621,205 @@ def run(ctx):
                       "every single-bit flip; verify() and hexverify()",
         },
     })
+    for k in [k for k in n if k.startswith("cpu_s/")]:
+        del n[k]
+    if not q:
+        ctx.coverage_extra["grids"].update(deep_grids())
+        ctx.coverage_extra["rule_note"] = (
+            "the tight-loop parts of the thorough tier (seg, rseg, xofgrid, pgrid, k12-every-cut, blake2 grid) "
+            "record one shape per (algorithm and parameters, message length / parameter value, pieces, mode); the "
+            "individual cut positions / output lengths / message lengths inside a shape are counted in "
+            "cases_per_part and evaluations only, so distinct_nontrivial understates the number of distinct cases")
     ctx.assume("data values: zero / ones / ascending / SHAKE256(VERIF_SEED) only (DESIGN 2.4); all shapes in 'grids'")
     ctx.assume("message lengths beyond the stated grids are covered by one long message per Merkle-Damgard hash only "
                "(%s); larger length counters, in particular the 2^64-bit carry of SHA-384/512, are not reached"
                % ("2^24+1 bytes = 2^27+8 bits" if q else
-                  "2^29+1 bytes = 2^32+8 bits, crossing the 32-bit word of the bit counter; BLAKE2s 2^32+65 bytes"))
+                  "2^29+1 bytes = 2^32+8 bits, crossing the 32-bit word of the bit counter; BLAKE2s 2^32+65 bytes; "
+                  "also SHA3-224..512 and BLAKE2b 2^29+1 bytes; plus the lengths 2^k-1, 2^k, 2^k+1 up to 1 MiB"))
+    if not q:
+        ctx.assume("segmented feeding: pieces are enumerated completely only up to the stated message lengths "
+                   "(2, 3 and 4 pieces); digest() in mid-stream is not explored for HMAC over SHA-3 (HMAC.digest() "
+                   "finalises the inner SHA-3 object, which then refuses update(); the property text does not "
+                   "regulate this) nor for Poly1305 / KMAC / the XOFs (update() after digest()/read() is refused by "
+                   "design); copy() only where the library offers it (MD2..SHA-512, SHA-3, SHAKE, HMAC, CMAC)")
     ctx.assume("CAST-128 and RC2: CMAC is checked relative to the library's own single-block encryption")
     ctx.assume("library-chosen random nonces of Poly1305.new(nonce=None) are not exercised")
     ctx.assume("parameter refusals documented by the library (KMAC key < 16/32 bytes, mac_len/digest < 8, "
                "CMAC mac_len outside 4..block, TurboSHAKE domain outside 01..7f) are logged, not judged")
     ctx.assume("verify(): the random 16-byte secret comes from the get_random_bytes seam of each MAC module")
     ctx.assume("cSHAKE function names other than '', 'KMAC', 'TupleHash' are reached through the private _new()")
+
+
+def deep_guards(ctx, a, shapes):
+    """vacuity guards of the thorough-only dimensions"""
+    plan = seg_plan()
+    for mode in SEG_MODES:
+        want = len(set(p[0] for p in plan if p[4] == mode))
+        got = len(a.distinct.get("seg-subjects/" + mode, ()))
+        ctx.require(got == want and want > 0, "segmented feeding (%s) ran on %d subjects, planned %d" % (mode, got, want))
+    segs = [s for s in shapes if s[0] == "seg"]
+    for np_ in (2, 3, 4):
+        ctx.require(any(s[3] == np_ for s in segs), "no %d-piece segmented feeding was executed" % np_)
+    fams = set(s[1].split("/")[0].split("-")[0] for s in segs)
+    for f in ("HMAC", "CMAC", "KMAC128", "KMAC256", "Poly1305", "BLAKE2b", "BLAKE2s", "SHAKE128", "cSHAKE256",
+              "TurboSHAKE128", "K12", "SHA256", "keccak512", "MD2"):
+        ctx.require(f in fams, "segmented feeding never ran on %s" % f)
+    rs = [s for s in shapes if s[0] == "rseg" and isinstance(s[4], int)]
+    ctx.require(any(s[4] == 2 for s in rs) and any(s[4] == 3 for s in rs), "segmented reading: 2 and 3 pieces expected")
+    ctx.require(len(set(s[1] for s in rs)) == len(xof_subjects()), "segmented reading did not run on every XOF")
+    ctx.require(len(set(s[1:3] for s in shapes if s[0] == "pgrid")) == 2 * len(PGRID) - 1
+                and len([s for s in shapes if s[0] == "thgrid"]) == 2 * (338 + 274),
+                "parameter x message grids did not run for every family")
+    for part in ("seg", "rseg", "xofgrid", "pgrid"):
+        ctx.require(len(a.distinct.get("out/" + part, ())) >= 100,
+                    "part %s produced fewer than 100 distinct reference outputs" % part)
+    have = set(s for s in shapes if s[0] in ("hash", "kmac", "tuplehash", "cshake", "k12", "hash-stream"))
+    for want in (("hash", "keccak256", (1 << 20) + 1), ("hash", "MD2", (1 << 16) + 1), ("hash", "SHA512", (1 << 20) - 1),
+                 ("kmac", 128, KMAC_ENCODE_HUGE[1], None, 0, 32), ("kmac", 256, 32, KMAC_ENCODE_HUGE[1], 0, 32),
+                 ("kmac", 256, 32, None, 3, KMAC_ENCODE_HUGE[1]), ("kmac", 128, 8192, None, 0, 32),
+                 ("tuplehash", 128, (KMAC_ENCODE_HUGE[1],), None, 32, False),
+                 ("tuplehash", 256, (1,), None, KMAC_ENCODE_HUGE[1], False),
+                 ("cshake", 256, 0, 32, CSHAKE_HUGE_CUSTOM[1], None),
+                 ("k12", K12_MANY_CHUNKS[-1], None, (32,), ("data",)),
+                 ("k12", 64 * 8192, None, (32,), ("chunks", 8192)),
+                 ("hash-stream", "SHA3_512", (1 << 29) + 1)):
+        ctx.require(want in have, "expected deep case %r was not executed" % (want,))
+    ctx.require(any(s[0] == "k12" and s[4][0] == "cut2" for s in shapes), "K12 three-piece feeding not executed")
+    ctx.require(len([s for s in shapes if s[0] == "k12-every-cut"]) >= len(K12_EVERY_CUT),
+                "K12 every-cut sweeps incomplete")
+    ctx.require(len(set(s[1:3] for s in shapes if s[0] == "poly-rs")) >= 35,
+                "Poly1305 (r, s) limb patterns: fewer than expected")
+    vm = {}
+    for s in shapes:
+        if s[0] == "verify":
+            vm.setdefault(s[2], set()).add(s[3])
+    typed = set(s[2] for s in shapes if s[0] == "verify" and s[4] == "verify-memoryview") \
+        & set(s[2] for s in shapes if s[0] == "verify" and s[4] == "verify-bytearray")
+    ctx.require(len(typed) >= 15 + 6 + 2 + 2 + 2, "verify(bytearray / memoryview) ran only on %d MACs" % len(typed))
+    deep = sorted(k for k, v in vm.items() if "bitflip2" in v and "byte-substitution" in v)
+    ctx.require(len(deep) >= 3 + 6 + 2 + 2 + 2, "extended verification alphabet ran only on %s" % deep)
+    ctx.require(all("extended-next" in v for k, v in vm.items() if k.startswith("CMAC-")),
+                "CMAC verification: the next-byte extension of a truncated tag was not offered for every cipher")
+
+
+def seg_rows():
+    """{family/pieces/mode: 'N rows, top message length min..max'} straight from the plan"""
+    rows = {}
+    for sd, kind, hi, npieces, mode, rc in seg_plan():
+        k = "%s/%d pieces/%s" % (sd[0], npieces, mode)
+        r = rows.setdefault(k, [0, hi, hi])
+        r[0] += 1
+        r[1] = min(r[1], hi)
+        r[2] = max(r[2], hi)
+    return {k: "%d rows (subject x value kind), top = %s"
+            % (v[0], v[1] if v[1] == v[2] else "%d..%d (depends on block / rate)" % (v[1], v[2]))
+            for k, v in sorted(rows.items())}
+
+
+def deep_grids():
+    """descriptions of the thorough-tier grids (replace the entries of the same name)"""
+    return {
+        "hash": "MD2 MD4 MD5 RIPEMD160 SHA1 SHA224/256/384/512 SHA512-224/256 SHA3-224..512 Keccak-224..512 "
+                "BLAKE2b-512 BLAKE2s-256 (+aliases SHA, RIPEMD on 11 lengths): every message length 0..16*block+1 "
+                "(sponges 0..8*rate+1) x zero/ones/ascending/seeded; lengths 2^k-1, 2^k, 2^k+1 for k = 11..20 (MD2: "
+                "11..16), seeded value; one long message of 2^29+1 bytes (1 MiB pieces) for MD5 RIPEMD160 SHA1 SHA-2 "
+                "(all six) SHA3-224..512 BLAKE2b, BLAKE2s 2^32+65 bytes; entry points new(data=), update, obj.new, "
+                "second digest, hexdigest",
+        "shake": "SHAKE128/256: message 0..8*rate+1 x 4 values, and 2^k-1..2^k+1 (k = 11..20); output 0..4*rate+1 "
+                 "in two reads for 3 message lengths, 2^k-1..2^k+1 (k = 10..16); every split of a 2*rate+1 read",
+        "cshake": "cSHAKE128/256: customisation lengths %s x every message length 0..4*rate+1 x 2 values; every "
+                  "customisation length 0..3*rate+1 x message {0,1,rate-1,rate,rate+1}; customisation of %s bytes "
+                  "(left_encode 3->4 bytes) x message {0,1,rate+1}; function-name lengths 0,1,4,9,31,32,33,255,256 "
+                  "x 3 customisations and every function-name length 0..rate+8 via _new; output 0..2*rate+1"
+                  % (custom_lengths(128), "/".join(map(str, CSHAKE_HUGE_CUSTOM))),
+        "kmac": "KMAC128/256: quick grid (key {min-1(refused),min,min+1,rate-6..rate-4,rate-1,rate,rate+1,2*rate} x "
+                "mac_len {default,7(refused),8,9,31,32,64,rate-1,rate,rate+1} x message {0,1,rate-1,rate,rate+1} x "
+                "customisation {omitted,0,1,31,32,33,254..257,65536}) plus: every key length min..2*rate+2; every "
+                "mac_len 8..2*rate+1; every message length 0..4*rate+1 x 4 values x 3 settings; key / customisation / "
+                "mac_len of %s bytes (2->3 length bytes) and %s bytes (3->4 length bytes)"
+                % ("/".join(map(str, KMAC_ENCODE_EDGES)), "/".join(map(str, KMAC_ENCODE_HUGE))),
+        "tuplehash": "TupleHash128/256: 76 tuples of 0..3 items x 6 customisations x 7 digest lengths "
+                     "(digest_bytes/digest_bits); plus all pairs over 14 boundary lengths, all 4-tuples over {0,1,32}, "
+                     "4..2*rate/3+2 one-byte items, 4..rate+2 empty items (x 3 customisations x 3 digest lengths); "
+                     "every digest length 8..2*rate+1, every customisation length 0..2*rate+1, every single-item "
+                     "length 0..2*rate+1; item / customisation / digest of %s and %s bytes"
+                     % ("/".join(map(str, KMAC_ENCODE_EDGES)), "/".join(map(str, KMAC_ENCODE_HUGE))),
+        "turboshake": "TurboSHAKE128/256: message 0..8*rate+1 x domain {default,01,7f} x 4 values; every domain "
+                      "01..7f x every message length 0..3*rate+1; message and output lengths 2^k-1..2^k+1 "
+                      "(k = 11..18); output 0..4*rate+1 in two reads; every split of a 2*rate+1 read",
+        "k12": "KangarooTwelve: message lengths 0..3, 8180..8204, 16376..16392, 24570..24584, 32768, 32769, 40961, "
+               "65536, 65537 (and |S| = 8191..8193, 16383..16385) x 17 customisation lengths (omitted, 0, 1, 2, "
+               "255..257, 8189..8193, 16383..16385, 24576, 65536; 8187, 8188 with the empty message) x 2 values x "
+               "feeding patterns (data=, none, update, "
+               "cuts at 1/8191/8192/8193/len-1, 8192- and 1000-byte pieces); every message length 0..%d x "
+               "customisation %s; every chunk count %d..%d with |S| = j*8192-1..j*8192+1 for customisation %s; "
+               "|S| = 2^21-1..2^21+2 (256 / 257 chunks, length_encode 1->2 bytes); equal pieces of %s bytes on 5 "
+               "messages; three pieces with both cuts in {0,1,8191..8193,16383..16385,len-1,len} and anywhere in "
+               "8185..8199 / 16377..16391 (2 messages); every two-piece split of %d whole messages (lengths %s); "
+               "output 0..337"
+               % (4 * 168 + 2, list(K12_SMALL_CUSTOMS), K12_CHUNK_COUNTS[0], K12_CHUNK_COUNTS[-1],
+                  list(K12_CHUNK_CUSTOMS), "/".join(map(str, K12_PIECE_SIZES)), len(K12_EVERY_CUT),
+                  ",".join("%d+C%s" % (m, c) for m, c in K12_EVERY_CUT)),
+        "hmac": "HMAC over %d hash variants: every key length 0..3*block+1 and 4*block, 4*block+1, 1024, 65536 x "
+                "every message length 0..3*block+1 (seeded values); zero/ones/ascending keys x all those key lengths "
+                "x 10 boundary message lengths (the two alias modules: 3 key x 2 message lengths)" % len(HMAC_HASHES),
+        "cmac": "CMAC over AES/3DES/DES/Blowfish (reference ciphers) and CAST/RC2 (library ECB as primitive), key "
+                "lengths AES 16/24/32, 3DES 16/24, Blowfish 4..56 all, CAST 5..16 all, RC2 5..17,64,127,128; key "
+                "values zero/ones/ascending/seeded (3DES: ascending/seeded): message 0..12*block+1 x mac_len "
+                "4..block and x 4 message values; every two-piece split up to 3*block+1",
+        "poly1305": "Poly1305_MAC(r,s) seam: 21 r limb patterns (5 + all 16 zero/max combinations of the four "
+                    "32-bit limbs) x 5 s patterns x message 0..257 x 4 values; 5 r x 3 s x message 258..%d x 2 values; "
+                    "Poly1305-AES: %d (key, nonce) variants (4 + 16 r limb patterns x s ones/zero/seeded), "
+                    "Poly1305-ChaCha20: %d variants (4 + 4 key values x nonce 8/12 bytes x 3 nonce values): message "
+                    "0..257 for the first four, 0..129 for the others"
+                    % (POLY_LONG_TOP, POLY_AES_VARIANTS, POLY_CC_VARIANTS),
+        "blake2": "BLAKE2b: digest_bytes 1..64 x key length 0..64 x message 0..641; BLAKE2s: 1..32 x 0..32 x 0..321; "
+                  "both once with seeded values through new(digest_bytes=, data=) and once with ascending values "
+                  "through new(digest_bits=).update(); all entry points (update/hexdigest/obj.new/digest_bits) for "
+                  "every digest size x every key length x 6 message lengths",
+        "verify": "every MAC: authentic, all truncations, +00/+ff/+next-byte extensions, other-message tag, every "
+                  "single-bit flip; verify(bytes), hexverify(str) and (all shapes listed next) verify(bytearray), "
+                  "verify(memoryview slice); HMAC: 8 key lengths x 6 message lengths per hash; CMAC: "
+                  "every key x 6 message lengths x every mac_len 4..block and default; KMAC: 3 keys x 2 customisations "
+                  "x 4 messages x mac_len 8/9/16/32/64; Poly1305: every third (key, nonce) variant x 7 message "
+                  "lengths; BLAKE2: every digest size x 3 key lengths x 2 messages; extended alphabet (additionally "
+                  "every two-bit flip and every substitution of one byte by each other value) on 8-/16-byte tags of "
+                  "HMAC-MD2/MD4/MD5, CMAC with each cipher (mac_len 4 and default), KMAC128/256 (8, 16), "
+                  "Poly1305-AES/-ChaCha20, BLAKE2b/s (1, 2, 8, 16)",
+        "segmented-update": "seg: every way to cut every message length 0..top into 2, 3 or 4 consecutive pieces "
+                            "(empty pieces included), each piece given to update(); reference computed once per "
+                            "message.  Modes: bytes; views = pieces alternately bytearray / memoryview slice; "
+                            "viewparams = additionally key / nonce / customisation passed as memoryview slice or "
+                            "bytearray (HMAC, CMAC, KMAC, Poly1305, keyed BLAKE2b); data+update = first piece through "
+                            "new(data=) / new(msg=); viewdata+update = the same with a memoryview first piece and "
+                            "bytearray later pieces; copy = copy() after the first piece, both objects finished; uad = "
+                            "digest() after every piece, each compared with the reference of the prefix (SHA-3 / "
+                            "Keccak / BLAKE2 / CMAC built with update_after_digest=True).  Subjects: 21 hashes; HMAC "
+                            "over 15 hashes x key length {0,1,block-1,block,block+1,2*block+1}; CMAC x %d (cipher, key "
+                            "length) pairs (+ every truncated mac_len for one key per cipher); KMAC128/256 x key "
+                            "{min,rate+1} x customisation {0,1} (+ mac_len 8, 64, rate+1); Poly1305 4 (r,s) patterns "
+                            "and 4 cipher variants; BLAKE2b/s x digest {1,max} x key {0,1,max} (+ digest 16, 20, "
+                            "max/2, max-1 x key {0,max}); SHAKE, cSHAKE (customisation 1, rate-7), TurboSHAKE (domain "
+                            "1f,01,7f), K12 (customisation none, 1), 32-byte output (+ outputs of 1, rate, rate+1 "
+                            "bytes).  Four pieces: %s, SHAKE128, CMAC.  The exact "
+                            "rows are in 'segmented-update-rows'"
+                            % (sum(len(v) for v in SEG_CMAC_KEYS.values()), " ".join(SEG_FOUR_PIECES)),
+        "segmented-update-rows": seg_rows(),
+        "segmented-read": "rseg: SHAKE128/256, cSHAKE128/256, TurboSHAKE128/256, K12 (without / with customisation): "
+                          "every split into 2 reads of every output length 0..3*rate+1 for messages of 0, 1, rate-1, "
+                          "rate+1 bytes; every split into 3 reads of every output length 0..rate+1 (SHAKE128, SHAKE256, "
+                          "K12 without customisation: 0..2*rate+1); cSHAKE / K12 output lengths 2^k-1..2^k+1 "
+                          "(k = 10..16) at once and in two halves",
+        "xof-grid": "xofgrid: full product message length x output length through new(data=m).read(n): SHAKE "
+                    "0..3*rate+1 x 0..3*rate+1; cSHAKE (customisation 1, 33, 300 bytes) and TurboSHAKE (domains 1f 01 "
+                    "06 07 0b 7f) 0..2*rate+1 x 0..2*rate+1; K12 (customisation none, 1, 300) 0..337 x 0..337",
+        "parameter-grid": "pgrid: full products with every message length: cSHAKE customisation length 0..3*rate+1 x "
+                          "message 0..3*rate+1; KMAC key length min..2*rate+2 x message 0..2*rate+1; KMAC "
+                          "customisation length 0..2*rate+1 x message 0..2*rate+1; KMAC mac_len 8..2*rate+1 x message "
+                          "0..2*rate+1; K12 customisation length 0..337 x message 0..337; TupleHash128/256 of (a, b): "
+                          "length of a 0..2*rate+1 x length of b 0..2*rate+1, once as update(a, b) with bytes and once "
+                          "as update(bytearray a).update(memoryview b)",
+    }
 
 
 # ===========================================================================
@@ -1557,5 +2853,11 @@ def replay(case, acc):
     elif p == "blake2":
         check_blake2(acc, case["variant"], case["dbytes"], case["key"], case["msg"], case["use_bits"],
                      case["verify"])
+    elif p == "seg":
+        check_seg(acc, case["spec"], case["msg"], tuple(case["cuts"]), case["mode"])
+    elif p == "one":
+        check_one(acc, case["spec"], case["msg"])
+    elif p == "rseg":
+        check_rseg(acc, case["spec"], case["msg"], tuple(case["reads"]), case["entry"])
     else:
         acc.error("unknown replay part %r" % p)
